@@ -1,12 +1,1728 @@
-(* Proofs for C10 (Model/Jet.v vs Spec/ODESeries.v). *)
-From Coq Require Import List Arith Lia Bool ZArith QArith Qcanon Field Ring.
+(* Proofs for C10 (Model/Jet.v vs Spec/ODESeries.v).
+
+   Part 1  list / series toolbox
+   Part 2  T10.1 uniqueness of the formal power-series solution; existence: the
+           recursion of Spec/ODESeries.v computes a formal solution
+   Part 3  T10.2 the unroll and padded-scan models return the derivatives of
+           the formal solution (every polynomial field, order k >= 1, num)
+   Part 4  polynomial arithmetic of the recursive-JVP model is sound for
+           series composition; T10.3 the recursive-JVP model is correct for
+           autonomous fields
+   Part 5  refutations (time-dependent witness) for via_jvp and doubling
+   Part 6  doubling *)
+From Coq Require Import List Arith Lia Bool ZArith QArith Qcanon Field Ring Setoid Morphisms.
 From PD Require Import Base.Field Base.Matrix Model.Poly Base.Series Spec.ODESeries Model.Jet.
 Import ListNotations.
 Local Close Scope Qc_scope.
 Local Close Scope Q_scope.
 Local Open Scope nat_scope.
 
-(* ------------------------------------------------------------ refutations *)
+Section JetProofs.
+  Context {F : Type} `{FL : FieldLaws F}.
+  Local Open Scope F_scope.
+  Add Field FJet : fth.
+  Add Ring FSringJ : fs_ring_theory.
+  Local Notation fs := (@fs F).
+  Local Notation series := (@series F).
+  Local Notation poly := (@poly F).
+  Local Notation vfield := (@vfield F).
+  Local Notation tvec := (list F).
+  Local Infix "==" := fs_eq (at level 70).
+
+  (* ================================================== Part 1: toolbox *)
+  Lemma Forall2_map_seq {A B} (R : A -> B -> Prop) (g : nat -> A) (h : nat -> B) s n :
+    (forall i, s <= i < s + n -> R (g i) (h i)) ->
+    Forall2 R (map g (seq s n)) (map h (seq s n)).
+  Proof.
+    revert s. induction n as [|n IH]; intros s E; simpl; constructor.
+    - apply E. lia.
+    - apply IH. intros i Hi. apply E. lia.
+  Qed.
+
+  Lemma list_eq_nth {A} (d : A) (l1 l2 : list A) :
+    length l1 = length l2 -> (forall i, i < length l1 -> nth i l1 d = nth i l2 d) -> l1 = l2.
+  Proof.
+    revert l2. induction l1 as [|x l1 IH]; intros [|y l2] Hl E; simpl in Hl; try discriminate.
+    - reflexivity.
+    - f_equal.
+      + apply (E 0%nat). simpl. lia.
+      + apply IH; [lia|]. intros i Hi. apply (E (S i)). simpl. lia.
+  Qed.
+
+  Lemma nth_map_seq {A} (g : nat -> A) d s n i : i < n -> nth i (map g (seq s n)) d = g (s + i)%nat.
+  Proof.
+    intro Hi. rewrite (nth_indep _ d (g 0%nat)) by (rewrite map_length, seq_length; exact Hi).
+    rewrite map_nth. rewrite seq_nth by exact Hi. reflexivity.
+  Qed.
+
+  Lemma map_nth_seq {A B} (g : A -> B) (l : list A) (d : A) :
+    map g l = map (fun i => g (nth i l d)) (seq 0 (length l)).
+  Proof.
+    apply (list_eq_nth (g d)).
+    - rewrite !map_length, seq_length. reflexivity.
+    - intros i Hi. rewrite map_length in Hi. rewrite nth_map_seq by exact Hi.
+      rewrite map_nth. reflexivity.
+  Qed.
+
+  Lemma seq_as_map s n : seq s n = map (fun b => (s + b)%nat) (seq 0 n).
+  Proof.
+    revert s. induction n as [|n IH]; intro s; [reflexivity|].
+    simpl. f_equal; [lia|]. rewrite <- (seq_shift n 0), map_map. rewrite (IH (S s)).
+    apply map_ext. intro b. lia.
+  Qed.
+
+  (* flat_map over (j, b) = map over idx = j*d + b *)
+  Lemma flat_map_seq_divmod {A} (g : nat -> nat -> A) k d :
+    flat_map (fun j => map (g j) (seq 0 d)) (seq 0 k)
+    = map (fun idx => g (idx / d)%nat (idx mod d)%nat) (seq 0 (k * d)).
+  Proof.
+    destruct d as [|d'].
+    - rewrite Nat.mul_0_r. simpl. induction (seq 0 k); simpl; [reflexivity|assumption].
+    - set (d := S d'). induction k as [|k IH]; [reflexivity|].
+      rewrite seq_S, flat_map_app, IH. cbn [flat_map]. rewrite app_nil_r.
+      replace (S k * d)%nat with (k * d + d)%nat by lia.
+      rewrite seq_app, map_app. f_equal.
+      rewrite !Nat.add_0_l. rewrite (seq_as_map (k * d) d). rewrite map_map. apply map_ext_in. intros b Hb. apply in_seq in Hb.
+      replace (k * d + b)%nat with (b + k * d)%nat by lia.
+      rewrite Nat.div_add by (unfold d; discriminate).
+      rewrite Nat.mod_add by (unfold d; discriminate).
+      rewrite Nat.div_small by lia. rewrite Nat.mod_small by lia. reflexivity.
+  Qed.
+
+  (* ---- factorials, rising factorials, iterated derivative ---- *)
+  Lemma fnat_1 : fnat 1 = (1 : F).
+  Proof. reflexivity. Qed.
+
+  Lemma rise_ffact n j : rise n j * ffact n = (ffact (n + j) : F).
+  Proof.
+    revert n. induction j as [|j IH]; intro n.
+    - simpl. rewrite Nat.add_0_r. ring.
+    - simpl rise. replace (n + S j)%nat with (S n + j)%nat by lia. rewrite <- IH.
+      simpl ffact. ring.
+  Qed.
+  Lemma rise_0 j : rise 0 j = (ffact j : F).
+  Proof. pose proof (rise_ffact 0 j) as E. simpl in E. rewrite <- E. ring. Qed.
+  Lemma rise_neq0 n j : rise n j <> (0 : F).
+  Proof.
+    revert n. induction j as [|j IH]; intro n; simpl.
+    - apply f1_neq0.
+    - apply fmul_neq0; [apply fnat_neq0; discriminate|apply IH].
+  Qed.
+
+  Lemma fs_Dn_rise j (a : fs) n : fs_Dn j a n = rise n j * a (n + j)%nat.
+  Proof.
+    revert n. induction j as [|j IH]; intro n.
+    - simpl. rewrite Nat.add_0_r. ring.
+    - simpl fs_Dn. unfold fs_D. rewrite IH. simpl rise.
+      replace (S n + j)%nat with (n + S j)%nat by lia. ring.
+  Qed.
+  Lemma curve_fs_rise (a : nat -> nat -> F) j b n :
+    curve_fs a j b n = rise n j * a (n + j)%nat b.
+  Proof. unfold curve_fs. apply fs_Dn_rise. Qed.
+  Lemma curve_fs_S (a : nat -> nat -> F) j b : curve_fs a (S j) b = fs_D (curve_fs a j b).
+  Proof. reflexivity. Qed.
+
+  (* two coefficient families that agree below n + j give curves that agree below n *)
+  Lemma curve_fs_agreeN (a a' : nat -> nat -> F) j b N M :
+    (forall i, i < M -> a i b = a' i b) -> (N + j <= M)%nat ->
+    agreeN N (curve_fs a j b) (curve_fs a' j b).
+  Proof.
+    intros E HM i Hi. rewrite !curve_fs_rise. rewrite E by lia. reflexivity.
+  Qed.
+
+  (* ================================= Part 2: uniqueness and existence *)
+  Lemma curve_env_agreeN k d (a a' : nat -> nat -> F) t0 N M :
+    (forall i b, i < M -> b < d -> a i b = a' i b) -> (N + k <= M + 1)%nat ->
+    Forall2 (agreeN N) (curve_env k d a t0) (curve_env k d a' t0).
+  Proof.
+    intros E HM. unfold curve_env. apply Forall2_app.
+    - apply Forall2_map_seq. intros idx Hidx.
+      destruct d as [|d']; [lia|]. set (d := S d') in *.
+      assert (Hj : (idx / d < k)%nat) by (apply Nat.div_lt_upper_bound; unfold d; lia).
+      assert (Hb : (idx mod d < d)%nat) by (apply Nat.mod_upper_bound; unfold d; discriminate).
+      intros i Hi. rewrite !curve_fs_rise. rewrite E by lia. reflexivity.
+    - constructor; [apply agreeN_refl|constructor].
+  Qed.
+
+  (* T10.1 *)
+  Theorem formal_solution_unique (v : vfield) (t0 : F) (a a' : nat -> nat -> F) :
+    is_formal_solution v t0 a -> is_formal_solution v t0 a' ->
+    (forall j b, j < vf_k v -> b < vf_d v -> a j b = a' j b) ->
+    forall n b, b < vf_d v -> a n b = a' n b.
+  Proof.
+    intros Ha Ha' E0 n. induction n as [n IH] using lt_wf_ind. intros b Hb.
+    destruct (Nat.lt_ge_cases n (vf_k v)) as [Hn|Hn]; [apply E0; assumption|].
+    set (m := (n - vf_k v)%nat).
+    pose proof (Ha m b Hb) as H1. pose proof (Ha' m b Hb) as H2.
+    rewrite curve_fs_rise in H1, H2. replace (m + vf_k v)%nat with n in H1, H2 by (unfold m; lia).
+    assert (E : fs_compose (curve_env (vf_k v) (vf_d v) a t0) (nth b (vf_f v) []) m
+                = fs_compose (curve_env (vf_k v) (vf_d v) a' t0) (nth b (vf_f v) []) m).
+    { apply (fs_compose_agreeN (S m)); [|lia].
+      apply (curve_env_agreeN _ _ _ _ _ _ n).
+      - intros i b' Hi Hb'. apply IH; assumption.
+      - unfold m. lia. }
+    rewrite E, <- H2 in H1.
+    transitivity (rise m (vf_k v) * a n b / rise m (vf_k v)); [field; apply rise_neq0|].
+    rewrite H1. field. apply rise_neq0.
+  Qed.
+
+  (* ---- existence: the recursion computes a formal solution ---- *)
+  Lemma spec_coeffs_length (v : vfield) t0 A0 num :
+    length (spec_coeffs v t0 A0 num) = (length A0 + num)%nat.
+  Proof. induction num as [|num IH]; simpl; [lia|]. rewrite app_length, IH. simpl. lia. Qed.
+
+  Lemma spec_coeffs_prefix (v : vfield) t0 A0 num extra n :
+    n < length A0 + num ->
+    nth n (spec_coeffs v t0 A0 (num + extra)) [] = nth n (spec_coeffs v t0 A0 num) [].
+  Proof.
+    intro Hn. induction extra as [|e IH].
+    - rewrite Nat.add_0_r. reflexivity.
+    - replace (num + S e)%nat with (S (num + e)) by lia. simpl spec_coeffs.
+      rewrite app_nth1 by (rewrite spec_coeffs_length; lia). exact IH.
+  Qed.
+
+  (* the coefficient family defined by the recursion from the initial block A0 *)
+  Definition sol (v : vfield) (t0 : F) (A0 : list (list F)) : nat -> nat -> F :=
+    fun n b => afun (spec_coeffs v t0 A0 (S n - length A0)) n b.
+
+  Lemma sol_nth (v : vfield) t0 A0 num n b :
+    n < length A0 + num -> sol v t0 A0 n b = afun (spec_coeffs v t0 A0 num) n b.
+  Proof.
+    intro Hn. unfold sol, afun.
+    destruct (Nat.le_ge_cases (S n - length A0) num) as [Hle|Hge].
+    - replace num with ((S n - length A0) + (num - (S n - length A0)))%nat by lia.
+      rewrite spec_coeffs_prefix by lia. reflexivity.
+    - replace (S n - length A0)%nat with (num + ((S n - length A0) - num))%nat by lia.
+      rewrite spec_coeffs_prefix by lia. reflexivity.
+  Qed.
+
+  Lemma vget_map_poly (g : poly -> F) (f : list poly) b :
+    g [] = 0 -> vget (map g f) b = g (nth b f []).
+  Proof.
+    intro G0. unfold vget. destruct (Nat.lt_ge_cases b (length f)) as [Hb|Hb].
+    - rewrite (nth_indep _ 0 (g [])) by (rewrite map_length; exact Hb).
+      apply map_nth.
+    - rewrite !nth_overflow by (try rewrite map_length; exact Hb). symmetry. exact G0.
+  Qed.
+
+  Lemma spec_env_agreeN N k d A t0 (a : nat -> nat -> F) M :
+    (forall i b, i < M -> a i b = afun A i b) -> (N + k <= M + 1)%nat ->
+    Forall2 (agreeN N) (map sget (spec_env N k d A t0)) (curve_env k d a t0).
+  Proof.
+    intros E HM. unfold spec_env, curve_env. rewrite map_app, map_map. apply Forall2_app.
+    - apply Forall2_map_seq. intros idx Hidx.
+      destruct d as [|d']; [lia|]. set (d := S d') in *.
+      assert (Hj : (idx / d < k)%nat) by (apply Nat.div_lt_upper_bound; unfold d; lia).
+      eapply agreeN_trans; [apply sget_strunc|].
+      intros i Hi. rewrite !curve_fs_rise. rewrite E by lia. reflexivity.
+    - simpl. constructor; [apply sget_stime|constructor].
+  Qed.
+
+  Theorem spec_is_formal_solution (v : vfield) (t0 : F) (A0 : list (list F)) :
+    length A0 = vf_k v -> is_formal_solution v t0 (sol v t0 A0).
+  Proof.
+    intros HA n b Hb. rewrite curve_fs_rise.
+    set (A := spec_coeffs v t0 A0 n).
+    assert (HlenA : length A = (vf_k v + n)%nat) by (unfold A; rewrite spec_coeffs_length; lia).
+    rewrite (sol_nth v t0 A0 (S n)) by lia.
+    unfold afun. simpl spec_coeffs. fold A.
+    rewrite app_nth2 by lia. replace (n + vf_k v - length A)%nat with 0%nat by lia. simpl nth.
+    unfold spec_next. rewrite HlenA. replace (vf_k v + n - vf_k v)%nat with n by lia.
+    rewrite (vget_map_poly
+               (fun p => sget (scompose (S n) (spec_env (S n) (vf_k v) (vf_d v) A t0) p) n
+                         / rise n (vf_k v))).
+    2:{ simpl. rewrite (sget_sconst (S n) 0 n) by lia. unfold fs_const.
+        destruct n; field; apply rise_neq0. }
+    rewrite (sget_scompose (S n)) by lia.
+    assert (E : fs_compose (map sget (spec_env (S n) (vf_k v) (vf_d v) A t0)) (nth b (vf_f v) []) n
+                = fs_compose (curve_env (vf_k v) (vf_d v) (sol v t0 A0) t0) (nth b (vf_f v) []) n).
+    { apply (fs_compose_agreeN (S n)); [|lia].
+      apply (spec_env_agreeN _ _ _ _ _ _ (vf_k v + n)); [|lia].
+      intros i b' Hi. unfold A. apply sol_nth. lia. }
+    rewrite E. field. apply rise_neq0.
+  Qed.
+
+  (* ============================ Part 3: unroll and padded scan (T10.2) *)
+  Lemma nth_firstn_lt {A} (l : list A) n i d : i < n -> nth i (firstn n l) d = nth i l d.
+  Proof.
+    revert n i. induction l as [|x l IH]; intros n i Hi.
+    - rewrite firstn_nil. reflexivity.
+    - destruct n as [|n]; [lia|]. destruct i as [|i]; simpl; [reflexivity|]. apply IH. lia.
+  Qed.
+  Lemma nth_skipn_add {A} (l : list A) n i d : nth i (skipn n l) d = nth (n + i) l d.
+  Proof.
+    revert n. induction l as [|x l IH]; intro n.
+    - rewrite skipn_nil. destruct i, n; reflexivity.
+    - destruct n as [|n]; simpl; [reflexivity|]. apply IH.
+  Qed.
+  Lemma pyslice_length {A} lo drop (l : list A) :
+    length (pyslice lo drop l) = (length l - drop - lo)%nat.
+  Proof. unfold pyslice. rewrite firstn_length, skipn_length. lia. Qed.
+  Lemma pyslice_nth {A} lo drop (l : list A) i d :
+    i < length l - drop - lo -> nth i (pyslice lo drop l) d = nth (lo + i) l d.
+  Proof. intro Hi. unfold pyslice. rewrite nth_firstn_lt by exact Hi. apply nth_skipn_add. Qed.
+  Lemma length_tl {A} (l : list A) : length (tl l) = (length l - 1)%nat.
+  Proof. destruct l; simpl; lia. Qed.
+  Lemma nth_tl {A} (l : list A) i d : nth i (tl l) d = nth (S i) l d.
+  Proof. destruct l; [destruct i; reflexivity|reflexivity]. Qed.
+
+  Lemma flat_map_map {A B C} (g : A -> B) (h : B -> list C) l :
+    flat_map h (map g l) = flat_map (fun x => h (g x)) l.
+  Proof. induction l as [|x l IH]; simpl; [reflexivity|]. rewrite IH. reflexivity. Qed.
+
+  Lemma combine_firstn_map_seq {A B} (l : list A) (g : nat -> B) (d : A) k :
+    k <= length l ->
+    combine (firstn k l) (map g (seq 0 k)) = map (fun j => (nth j l d, g j)) (seq 0 k).
+  Proof.
+    intro Hk. apply (list_eq_nth (d, g 0%nat)).
+    - rewrite combine_length, firstn_length, !map_length, seq_length. lia.
+    - intros i Hi. rewrite combine_length, firstn_length, map_length, seq_length in Hi.
+      rewrite combine_nth by (rewrite firstn_length, map_length, seq_length; lia).
+      rewrite nth_firstn_lt by lia. rewrite !nth_map_seq by lia. reflexivity.
+  Qed.
+
+  Lemma sget_to_norm (ds : list F) i : i < length ds -> sget (to_norm ds) i = sget ds i / ffact i.
+  Proof. intro Hi. unfold to_norm. rewrite sget_mkv by exact Hi. reflexivity. Qed.
+  Lemma sget_to_deriv (a : series) i : i < length a -> sget (to_deriv a) i = ffact i * sget a i.
+  Proof. intro Hi. unfold to_deriv. rewrite sget_mkv by exact Hi. reflexivity. Qed.
+  Lemma scompose_length N (env : list series) (p : poly) : length (scompose N env p) = N.
+  Proof. destruct p; simpl; [unfold sconst|unfold sadd]; apply mkv_length. Qed.
+
+  (* the derivative vector of order n of the curve with normalised coefficients a *)
+  Definition dvec (a : nat -> nat -> F) (d n : nat) : tvec :=
+    map (fun b => ffact n * a n b) (seq 0 d).
+  Definition good_upto (a : nat -> nat -> F) (d c : nat) (tc : list tvec) : Prop :=
+    forall n, n <= c -> nth n tc [] = dvec a d n.
+
+  Lemma vget_dvec a d n b : b < d -> vget (dvec a d n) b = ffact n * a n b.
+  Proof. intro Hb. unfold vget, dvec. rewrite nth_map_seq by exact Hb. reflexivity. Qed.
+
+  Lemma sget_cons_S (x : F) l i : sget (x :: l) (S i) = sget l i.
+  Proof. reflexivity. Qed.
+
+  (* the (t, 1, 0, ...) series is t0 + tau *)
+  Lemma time_series_agree t0 n N :
+    N <= S n -> 1 <= n ->
+    agreeN N (sget (to_norm (t0 :: 1 :: repeat 0 (n - 1)))) (fs_time t0).
+  Proof.
+    intros HN Hn i Hi.
+    rewrite sget_to_norm by (simpl; rewrite repeat_length; lia).
+    destruct i as [|[|i]].
+    - change (t0 / 1 = t0). field. apply f1_neq0.
+    - change (sget (t0 :: 1 :: repeat 0 (n - 1)) 1) with (1 : F). unfold fs_time.
+      change (ffact 1) with (fnat 1 * 1 : F). rewrite fnat_1. field. apply f1_neq0.
+    - change (sget (t0 :: 1 :: repeat 0 (n - 1)) (S (S i))) with (nth i (repeat 0 (n - 1)) (0 : F)).
+      unfold fs_time.
+      assert (E : nth i (repeat (0 : F) (n - 1)) 0 = 0).
+      { destruct (Nat.lt_ge_cases i (n - 1)) as [Hl|Hl].
+        - apply nth_repeat.
+        - apply nth_overflow. rewrite repeat_length. exact Hl. }
+      rewrite E. field. apply ffact_neq0.
+  Qed.
+
+  (* the environment handed to jet by the increment agrees with the true curve
+     as far as the coefficients of tc are correct *)
+  Lemma jet_env_agreeN (a : nat -> nat -> F) k d (tc : list tvec) t0 c N :
+    1 <= k -> k + 1 <= length tc -> good_upto a d c tc ->
+    (N + k <= c + 2)%nat -> (N <= length tc - k + 1)%nat ->
+    Forall2 (agreeN N)
+      (map sget (jet_env d (firstn k tc) t0
+                         (map (fun j => pyslice j (k - 1 - j) (tl tc)) (seq 0 k))
+                         (1 :: repeat 0 (length tc - k - 1))))
+      (curve_env k d a t0).
+  Proof.
+    intros Hk HL Hgood HN HNL. unfold jet_env, curve_env. unfold vec in *.
+    rewrite (combine_firstn_map_seq tc _ []) by lia.
+    rewrite flat_map_map. cbn [fst snd]. rewrite flat_map_seq_divmod.
+    rewrite map_app, map_map. apply Forall2_app.
+    - apply Forall2_map_seq. intros idx Hidx.
+      destruct d as [|d']; [lia|]. set (d := S d') in *.
+      assert (Hj : (idx / d < k)%nat) by (apply Nat.div_lt_upper_bound; unfold d; lia).
+      assert (Hb : (idx mod d < d)%nat) by (apply Nat.mod_upper_bound; unfold d; discriminate).
+      set (j := (idx / d)%nat) in *. set (b := (idx mod d)%nat) in *. clearbody j b.
+      intros i Hi.
+      assert (Hlen : length (pyslice j (k - 1 - j) (tl tc)) = (length tc - k)%nat).
+      { rewrite pyslice_length, length_tl. lia. }
+      rewrite sget_to_norm by (cbn [length]; rewrite map_length, pyslice_length, length_tl; unfold vec in *; lia).
+      assert (E : sget (vget (nth j tc []) b :: map (fun c0 : list F => vget c0 b) (pyslice j (k - 1 - j) (tl tc))) i
+                  = vget (nth (j + i) tc []) b).
+      { destruct i as [|i].
+        - rewrite Nat.add_0_r. reflexivity.
+        - rewrite sget_cons_S. unfold sget.
+          rewrite (nth_indep _ 0 (vget [] b)) by (rewrite map_length, pyslice_length, length_tl; unfold vec in *; lia).
+          rewrite (map_nth (fun c0 : list F => vget c0 b)).
+          rewrite pyslice_nth by (rewrite length_tl; unfold vec in *; lia).
+          rewrite nth_tl. replace (S (j + i)) with (j + S i)%nat by lia. reflexivity. }
+      rewrite E. rewrite Hgood by lia. rewrite vget_dvec by exact Hb.
+      rewrite curve_fs_rise. replace (j + i)%nat with (i + j)%nat by lia.
+      rewrite <- (rise_ffact i j). field. apply ffact_neq0.
+    - simpl. constructor; [|constructor].
+      apply time_series_agree; lia.
+  Qed.
+
+  Lemma increment_good (v : vfield) (t0 : F) (a : nat -> nat -> F) (tc : list tvec) (c : nat) :
+    1 <= vf_k v -> length (vf_f v) = vf_d v -> is_formal_solution v t0 a ->
+    vf_k v + 1 <= length tc -> vf_k v <= c -> c < length tc ->
+    good_upto a (vf_d v) c tc ->
+    exists tc', increment v tc t0 = Some tc' /\ length tc' = S (length tc) /\
+                good_upto a (vf_d v) (S c) tc'.
+  Proof.
+    intros Hk Hf Hsol HL Hkc HcL Hgood. unfold vec in *. unfold is_formal_solution in Hsol.
+    set (k := vf_k v) in *. set (d := vf_d v) in *. set (L := length tc) in *.
+    set (n := (L - k)%nat).
+    unfold increment, args_aj. fold k. unfold vec in *.
+    set (su := map (fun j => pyslice j (k - 1 - j) (tl tc)) (seq 0 k)).
+    assert (Hsu0 : length (nth 0 su []) = n).
+    { unfold su. rewrite nth_map_seq by lia. rewrite pyslice_length, length_tl.
+      unfold n. fold L. lia. }
+    rewrite Hsu0.
+    set (st := 1 :: repeat 0 (n - 1)).
+    assert (Hst : length st = n) by (unfold st; simpl; rewrite repeat_length; unfold n; lia).
+    unfold jet_poly. cbv zeta. unfold vec in *. rewrite Hst.
+    assert (Hchk : forallb (fun s => Nat.eqb (length s) n) su
+                   && Nat.eqb (length (firstn k tc)) (length su) = true).
+    { apply andb_true_iff. split.
+      - apply forallb_forall. intros s Hs. unfold su in Hs. apply in_map_iff in Hs.
+        destruct Hs as [j [<- Hj]]. apply in_seq in Hj. apply Nat.eqb_eq.
+        rewrite pyslice_length, length_tl. unfold n. fold L. lia.
+      - apply Nat.eqb_eq. unfold su. rewrite firstn_length, map_length, seq_length.
+        fold L. lia. }
+    rewrite Hchk. fold d.
+    set (env := jet_env d (firstn k tc) t0 su st).
+    set (outs := map (fun p => to_deriv (scompose (S n) env p)) (vf_f v)).
+    eexists. split; [reflexivity|]. split.
+    - rewrite !app_length, firstn_length, map_length, seq_length. simpl. fold L. unfold n. lia.
+    - (* entry k + l of the result is (sget o l) over the outputs *)
+      assert (Hentry : forall l, l <= n ->
+                nth (k + l) (firstn k tc ++ [map (fun o => sget o 0) outs]
+                             ++ map (fun l0 => map (fun o => sget o (S l0)) outs) (seq 0 n)) []
+                = map (fun o => sget o l) outs).
+      { intros l Hl. rewrite app_nth2 by (rewrite firstn_length; fold L; lia).
+        rewrite firstn_length. fold L. replace (k + l - Nat.min k L)%nat with l by lia.
+        destruct l as [|l]; [reflexivity|]. simpl.
+        rewrite nth_map_seq by lia. reflexivity. }
+      intros m Hm.
+      destruct (Nat.lt_ge_cases m k) as [Hmk|Hmk].
+      + rewrite app_nth1 by (rewrite firstn_length; fold L; lia).
+        rewrite nth_firstn_lt by exact Hmk. apply Hgood. lia.
+      + set (l := (m - k)%nat). replace m with (k + l)%nat by (unfold l; lia).
+        assert (Hl : l <= n) by (unfold l, n; lia).
+        rewrite Hentry by exact Hl. unfold outs. rewrite map_map.
+        rewrite (map_nth_seq _ (vf_f v) []). rewrite Hf. fold d. unfold dvec.
+        apply map_ext_in. intros b Hb. apply in_seq in Hb.
+        rewrite sget_to_deriv by (rewrite scompose_length; lia).
+        rewrite (sget_scompose (S n)) by lia.
+        assert (E : fs_compose (map sget env) (nth b (vf_f v) []) l
+                    = fs_compose (curve_env k d a t0) (nth b (vf_f v) []) l).
+        { apply (fs_compose_agreeN (S l)); [|lia].
+          unfold env, su, st. replace (n - 1)%nat with (length tc - k - 1)%nat by (unfold n, L; lia).
+          apply (jet_env_agreeN a k d tc t0 c); try assumption; try lia.
+          all: unfold l, n, L in *; unfold vec in *; lia. }
+        rewrite E. rewrite <- (Hsol l b) by lia. rewrite curve_fs_rise.
+        replace (k + l)%nat with (l + k)%nat by lia. rewrite <- (rise_ffact l k). ring.
+  Qed.
+
+  Lemma vget_map_zero (g : F -> F) (l : list F) b : g 0 = 0 -> vget (map g l) b = g (vget l b).
+  Proof.
+    intro G0. unfold vget. destruct (Nat.lt_ge_cases b (length l)) as [Hb|Hb].
+    - rewrite (nth_indep _ 0 (g 0)) by (rewrite map_length; exact Hb). apply map_nth.
+    - rewrite !nth_overflow by (try rewrite map_length; exact Hb). symmetry. exact G0.
+  Qed.
+
+  (* ---- well-formed problems and the canonical solution ---- *)
+  Definition wf_problem (v : vfield) (inits : list tvec) : Prop :=
+    length (vf_f v) = vf_d v /\ length inits = vf_k v /\
+    (forall j, j < vf_k v -> length (nth j inits []) = vf_d v).
+
+  Lemma list_as_map_vget (l : list F) d : length l = d -> l = map (fun b => vget l b) (seq 0 d).
+  Proof.
+    intro Hl. apply (list_eq_nth 0).
+    - rewrite map_length, seq_length. exact Hl.
+    - intros i Hi. rewrite nth_map_seq by lia. reflexivity.
+  Qed.
+
+  Lemma normalise_length (ds : list (list F)) : length (normalise ds) = length ds.
+  Proof. unfold normalise. rewrite map_length, seq_length. reflexivity. Qed.
+  Lemma normalise_nth (ds : list (list F)) j :
+    j < length ds -> nth j (normalise ds) [] = map (fun x => x / ffact j) (nth j ds []).
+  Proof. intro Hj. unfold normalise. rewrite nth_map_seq by exact Hj. reflexivity. Qed.
+
+  Lemma spec_coeffs_entry_length (v : vfield) t0 A0 num n :
+    length (vf_f v) = vf_d v -> (forall j, j < length A0 -> length (nth j A0 []) = vf_d v) ->
+    n < length A0 + num -> length (nth n (spec_coeffs v t0 A0 num) []) = vf_d v.
+  Proof.
+    intros Hf HA0. induction num as [|num IH]; intro Hn.
+    - simpl. apply HA0. lia.
+    - simpl spec_coeffs. destruct (Nat.lt_ge_cases n (length A0 + num)) as [Hlt|Hge].
+      + rewrite app_nth1 by (rewrite spec_coeffs_length; exact Hlt). apply IH. exact Hlt.
+      + rewrite app_nth2 by (rewrite spec_coeffs_length; exact Hge).
+        rewrite spec_coeffs_length. replace (n - (length A0 + num))%nat with 0%nat by lia.
+        simpl. unfold spec_next. rewrite map_length. exact Hf.
+  Qed.
+
+  (* the canonical solution reproduces the initial derivative vectors *)
+  Lemma sol_inits (v : vfield) t0 (inits : list tvec) j :
+    wf_problem v inits -> j < vf_k v ->
+    nth j inits [] = dvec (sol v t0 (normalise inits)) (vf_d v) j.
+  Proof.
+    intros [Hf [Hi Hd]] Hj.
+    rewrite (list_as_map_vget (nth j inits []) (vf_d v)) at 1 by (apply Hd; exact Hj).
+    unfold dvec. apply map_ext_in. intros b Hb.
+    rewrite (sol_nth v t0 (normalise inits) 0) by (rewrite normalise_length; lia).
+    unfold afun. simpl spec_coeffs. rewrite normalise_nth by lia.
+    rewrite (vget_map_zero (fun x => x / ffact j)) by (field; apply ffact_neq0).
+    field. apply ffact_neq0.
+  Qed.
+
+  (* ---- the initial evaluation f(inits, t0) is the k-th derivative ---- *)
+  Lemma curve_env_at0 k d (a : nat -> nat -> F) t0 (inits : list tvec) :
+    length inits = k -> (forall j, j < k -> nth j inits [] = dvec a d j) ->
+    map (fun s : fs => s 0%nat) (curve_env k d a t0) = vf_env inits t0.
+  Proof.
+    intros Hi Hd. unfold curve_env, vf_env. rewrite map_app. f_equal.
+    assert (E : inits = map (dvec a d) (seq 0 k)).
+    { apply (list_eq_nth []).
+      - rewrite map_length, seq_length. exact Hi.
+      - intros j Hj. rewrite nth_map_seq by lia. apply Hd. lia. }
+    rewrite E at 1. rewrite <- flat_map_concat_map. unfold dvec.
+    rewrite flat_map_seq_divmod. rewrite map_map. apply map_ext. intro idx.
+    rewrite curve_fs_rise, rise_0. reflexivity.
+  Qed.
+
+  Lemma init_good (v : vfield) t0 (a : nat -> nat -> F) (inits : list tvec) :
+    length (vf_f v) = vf_d v -> length inits = vf_k v ->
+    (forall j, j < vf_k v -> nth j inits [] = dvec a (vf_d v) j) ->
+    is_formal_solution v t0 a ->
+    exists p, vf_eval v inits t0 = Some p /\
+              good_upto a (vf_d v) (vf_k v) (inits ++ [p]).
+  Proof.
+    intros Hf Hi Hd Hsol. unfold vf_eval. rewrite Hi, Nat.eqb_refl.
+    eexists. split; [reflexivity|]. intros n Hn.
+    destruct (Nat.lt_ge_cases n (vf_k v)) as [Hlt|Hge].
+    - rewrite app_nth1 by lia. apply Hd. exact Hlt.
+    - assert (n = vf_k v) by lia. subst n.
+      rewrite app_nth2 by lia. rewrite Hi, Nat.sub_diag. simpl nth.
+      rewrite (map_nth_seq _ (vf_f v) []). rewrite Hf. unfold dvec.
+      apply map_ext_in. intros b Hb. apply in_seq in Hb.
+      rewrite <- (curve_env_at0 (vf_k v) (vf_d v) a t0 inits Hi Hd).
+      rewrite <- (fs_compose_at0 (curve_env (vf_k v) (vf_d v) a t0) (nth b (vf_f v) [])).
+      rewrite <- (Hsol 0%nat b) by lia.
+      rewrite curve_fs_rise, rise_0. reflexivity.
+  Qed.
+
+  (* ---- iterating the increment ---- *)
+  Lemma unroll_iter (v : vfield) t0 (a : nat -> nat -> F) i : forall tc : list tvec,
+    1 <= vf_k v -> length (vf_f v) = vf_d v -> is_formal_solution v t0 a ->
+    vf_k v + 1 <= length tc -> good_upto a (vf_d v) (length tc - 1) tc ->
+    exists tc', iter_opt i (fun tc0 => increment v tc0 t0) tc = Some tc' /\
+                length tc' = (length tc + i)%nat /\
+                good_upto a (vf_d v) (length tc' - 1) tc'.
+  Proof.
+    induction i as [|i IH]; intros tc Hk Hf Hsol HL Hgood.
+    - exists tc. split; [reflexivity|]. split; [lia|exact Hgood].
+    - destruct (increment_good v t0 a tc (length tc - 1) Hk Hf Hsol HL) as [tc1 [E1 [L1 G1]]];
+        [lia|lia|exact Hgood|].
+      simpl iter_opt. rewrite E1.
+      destruct (IH tc1 Hk Hf Hsol) as [tc' [E' [L' G']]].
+      + lia.
+      + rewrite L1. replace (S (length tc) - 1)%nat with (S (length tc - 1)) by lia. exact G1.
+      + exists tc'. split; [exact E'|]. split; [lia|exact G'].
+  Qed.
+
+  Lemma removelast_nth {A} (l : list A) m d : m < length l - 1 -> nth m (removelast l) d = nth m l d.
+  Proof.
+    intro Hm. rewrite removelast_firstn_len. apply nth_firstn_lt. lia.
+  Qed.
+  Lemma removelast_length {A} (l : list A) : length (removelast l) = (length l - 1)%nat.
+  Proof. rewrite removelast_firstn_len, firstn_length. lia. Qed.
+
+  Lemma scan_iter (v : vfield) t0 (a : nat -> nat -> F) i : forall (tc : list tvec) c,
+    1 <= vf_k v -> length (vf_f v) = vf_d v -> is_formal_solution v t0 a ->
+    vf_k v + 1 <= length tc -> vf_k v <= c -> c < length tc ->
+    good_upto a (vf_d v) c tc ->
+    exists tc', iter_opt i (fun tc0 => match increment v tc0 t0 with
+                                        | None => None
+                                        | Some tc1 => Some (removelast tc1)
+                                        end) tc = Some tc' /\
+                length tc' = length tc /\
+                good_upto a (vf_d v) (Nat.min (c + i) (length tc - 1)) tc'.
+  Proof.
+    induction i as [|i IH]; intros tc c Hk Hf Hsol HL Hkc HcL Hgood.
+    - exists tc. split; [reflexivity|]. split; [reflexivity|].
+      intros n Hn. apply Hgood. lia.
+    - destruct (increment_good v t0 a tc c Hk Hf Hsol HL Hkc HcL Hgood) as [tc1 [E1 [L1 G1]]].
+      simpl iter_opt. rewrite E1.
+      assert (Lr : length (removelast tc1) = length tc) by (rewrite removelast_length; lia).
+      destruct (IH (removelast tc1) (Nat.min (S c) (length tc - 1)) Hk Hf Hsol) as [tc' [E' [L' G']]].
+      + lia.
+      + lia.
+      + lia.
+      + intros n Hn. rewrite removelast_nth by lia. apply G1. lia.
+      + exists tc'. split; [exact E'|]. split; [lia|].
+        intros n Hn. apply G'. rewrite Lr. lia.
+  Qed.
+
+  (* ---- the specification as a list of derivative vectors ---- *)
+  Lemma spec_derivs_dvec (v : vfield) t0 (inits : list tvec) num :
+    wf_problem v inits ->
+    spec_derivs v t0 inits num
+    = map (dvec (sol v t0 (normalise inits)) (vf_d v)) (seq 0 (vf_k v + num)).
+  Proof.
+    intros [Hf [Hi Hd]]. unfold spec_derivs, denormalise.
+    rewrite spec_coeffs_length, normalise_length, Hi.
+    apply map_ext_in. intros n Hn. apply in_seq in Hn.
+    set (A := spec_coeffs v t0 (normalise inits) num).
+    assert (HlenA : length (nth n A []) = vf_d v).
+    { unfold A. apply spec_coeffs_entry_length; [exact Hf| |rewrite normalise_length; lia].
+      intros j Hj. rewrite normalise_length in Hj. rewrite normalise_nth by exact Hj.
+      rewrite map_length. apply Hd. lia. }
+    rewrite (list_as_map_vget (nth n A []) (vf_d v) HlenA) at 1. rewrite map_map.
+    unfold dvec. apply map_ext_in. intros b Hb.
+    rewrite (sol_nth v t0 (normalise inits) num) by (rewrite normalise_length; lia).
+    reflexivity.
+  Qed.
+
+  Lemma denormalise_normalise (ds : list (list F)) : denormalise (normalise ds) = ds.
+  Proof.
+    unfold denormalise. rewrite normalise_length.
+    apply (list_eq_nth []).
+    - rewrite map_length, seq_length. reflexivity.
+    - intros i Hi. rewrite map_length, seq_length in Hi. rewrite nth_map_seq by exact Hi.
+      simpl plus. rewrite normalise_nth by exact Hi. rewrite map_map.
+      rewrite <- (map_id (nth i ds [])) at 2. apply map_ext. intro x. field. apply ffact_neq0.
+  Qed.
+
+  Lemma all_good_is_spec (v : vfield) t0 (inits tc : list tvec) num :
+    wf_problem v inits -> length tc = (vf_k v + num)%nat ->
+    good_upto (sol v t0 (normalise inits)) (vf_d v) (length tc - 1) tc ->
+    tc = spec_derivs v t0 inits num.
+  Proof.
+    intros Hwf HL Hgood. rewrite spec_derivs_dvec by exact Hwf.
+    apply (list_eq_nth []).
+    - rewrite map_length, seq_length. exact HL.
+    - intros n Hn. rewrite nth_map_seq by lia. apply Hgood. lia.
+  Qed.
+
+  (* T10.2 *)
+  Theorem unroll_correct (v : vfield) (t0 : F) (inits : list tvec) (num : nat) :
+    1 <= vf_k v -> wf_problem v inits ->
+    unroll_model v inits t0 num = Some (spec_derivs v t0 inits num).
+  Proof.
+    intros Hk Hwf. pose proof Hwf as [Hf [Hi Hd]].
+    set (a := sol v t0 (normalise inits)).
+    assert (Hsol : is_formal_solution v t0 a)
+      by (apply spec_is_formal_solution; rewrite normalise_length; exact Hi).
+    destruct num as [|num'].
+    - simpl. unfold spec_derivs. simpl. rewrite denormalise_normalise. reflexivity.
+    - unfold unroll_model.
+      destruct (init_good v t0 a inits Hf Hi (fun j Hj => sol_inits v t0 inits j Hwf Hj) Hsol)
+        as [p [Ep Gp]].
+      rewrite Ep.
+      assert (HL0 : length (inits ++ [p]) = (vf_k v + 1)%nat) by (rewrite app_length; simpl; lia).
+      destruct (unroll_iter v t0 a num' (inits ++ [p]) Hk Hf Hsol) as [tc' [E' [L' G']]].
+      + lia.
+      + rewrite HL0. replace (vf_k v + 1 - 1)%nat with (vf_k v) by lia. exact Gp.
+      + rewrite E'. f_equal. apply all_good_is_spec; [exact Hwf|lia|exact G'].
+  Qed.
+
+  Theorem padded_scan_correct (v : vfield) (t0 : F) (inits : list tvec) (num : nat) :
+    1 <= vf_k v -> wf_problem v inits ->
+    padded_scan_model v inits t0 num = Some (spec_derivs v t0 inits num).
+  Proof.
+    intros Hk Hwf. pose proof Hwf as [Hf [Hi Hd]].
+    set (a := sol v t0 (normalise inits)).
+    assert (Hsol : is_formal_solution v t0 a)
+      by (apply spec_is_formal_solution; rewrite normalise_length; exact Hi).
+    destruct num as [|num'].
+    - simpl. unfold spec_derivs. simpl. rewrite denormalise_normalise. reflexivity.
+    - unfold padded_scan_model.
+      destruct (init_good v t0 a inits Hf Hi (fun j Hj => sol_inits v t0 inits j Hwf Hj) Hsol)
+        as [p [Ep Gp]].
+      rewrite Ep.
+      assert (HL0 : length (inits ++ [p]) = (vf_k v + 1)%nat) by (rewrite app_length; simpl; lia).
+      destruct num' as [|num''].
+      + f_equal. apply all_good_is_spec; [exact Hwf|lia|].
+        rewrite HL0. replace (vf_k v + 1 - 1)%nat with (vf_k v) by lia. exact Gp.
+      + set (padded := (inits ++ [p]) ++ repeat (map (fun _ => 0) p)
+                                              (length inits + S (S num'') - length (inits ++ [p]))).
+        assert (HLp : length padded = (vf_k v + S (S num''))%nat).
+        { unfold padded. rewrite app_length, repeat_length, HL0. lia. }
+        destruct (scan_iter v t0 a (S num'') padded (vf_k v) Hk Hf Hsol) as [tc' [E' [L' G']]].
+        * lia.
+        * lia.
+        * lia.
+        * intros n Hn. unfold padded. rewrite app_nth1 by lia. apply Gp. exact Hn.
+        * rewrite E'. f_equal. apply all_good_is_spec; [exact Hwf|lia|].
+          intros n Hn. apply G'. lia.
+  Qed.
+
+  (* ================= Part 4: the recursive-JVP model (T10.3) *)
+  (* ---- the polynomial arithmetic is sound for series composition ---- *)
+  Lemma exps_cmp_eq e e' : exps_cmp e e' = Eq -> e = e'.
+  Proof.
+    revert e'. induction e as [|x e IH]; intros [|y e'] Hc; simpl in Hc; try discriminate.
+    - reflexivity.
+    - destruct (Nat.compare x y) eqn:Exy; try discriminate.
+      apply Nat.compare_eq in Exy. subst y. f_equal. apply IH. exact Hc.
+  Qed.
+
+  Lemma padd_nil_l (q : poly) : padd [] q = q.
+  Proof. destruct q; reflexivity. Qed.
+  Lemma padd_nil_r (p : poly) : padd p [] = p.
+  Proof. destruct p as [|[c e] p]; reflexivity. Qed.
+  Lemma padd_cons c e (p' : poly) c' e' (q' : poly) :
+    padd ((c, e) :: p') ((c', e') :: q')
+    = match exps_cmp e e' with
+      | Lt => (c, e) :: padd p' ((c', e') :: q')
+      | Gt => (c', e') :: padd ((c, e) :: p') q'
+      | Eq => if feqb (c + c') 0 then padd p' q' else (c + c', e) :: padd p' q'
+      end.
+  Proof. reflexivity. Qed.
+
+  Lemma fs_mono_pair env c e : fs_mono env (c, e) = fs_scale c (fs_exps env e).
+  Proof. reflexivity. Qed.
+
+  Lemma fs_compose_padd (env : list fs) (p q : poly) :
+    fs_compose env (padd p q) == fs_add (fs_compose env p) (fs_compose env q).
+  Proof.
+    revert q. induction p as [|[c e] p IHp]; intro q.
+    - rewrite padd_nil_l, fs_compose_nil. ring.
+    - induction q as [|[c' e'] q IHq].
+      + rewrite padd_nil_r, fs_compose_nil. ring.
+      + rewrite padd_cons. destruct (exps_cmp e e') eqn:Ec.
+        * apply exps_cmp_eq in Ec. subst e'.
+          destruct (feqb (c + c') 0) eqn:Ez.
+          -- apply feqb_eq in Ez. rewrite IHp. rewrite !fs_compose_cons, !fs_mono_pair.
+             rewrite !fs_scale_mul.
+             assert (E0 : fs_add (fs_const c) (fs_const c') == fs_const 0)
+               by (rewrite <- fs_const_add, Ez; reflexivity).
+             transitivity (fs_add (fs_mul (fs_add (fs_const c) (fs_const c')) (fs_exps env e))
+                                  (fs_add (fs_compose env p) (fs_compose env q))); [|ring].
+             rewrite E0. ring.
+          -- change (fs_compose env ((c + c', e) :: padd p q))
+               with (fs_add (fs_mono env (c + c', e)) (fs_compose env (padd p q))).
+             rewrite !fs_compose_cons, IHp, !fs_mono_pair.
+             rewrite !fs_scale_mul, fs_const_add. ring.
+        * change (fs_compose env ((c, e) :: padd p ((c', e') :: q)))
+            with (fs_add (fs_mono env (c, e)) (fs_compose env (padd p ((c', e') :: q)))).
+          rewrite IHp. unfold fs_compose. simpl fold_right. ring.
+        * change (fs_compose env ((c', e') :: padd ((c, e) :: p) q))
+            with (fs_add (fs_mono env (c', e')) (fs_compose env (padd ((c, e) :: p) q))).
+          rewrite IHq. unfold fs_compose. simpl fold_right. ring.
+  Qed.
+
+  Lemma fs_exps_nil_r (env : list fs) : fs_exps env [] = fs_const 1.
+  Proof. destruct env; reflexivity. Qed.
+
+  Lemma fs_exps_eadd (env : list fs) e e' :
+    fs_exps env (eadd e e') == fs_mul (fs_exps env e) (fs_exps env e').
+  Proof.
+    revert e e'. induction env as [|x env IH]; intros e e'.
+    - simpl. destruct (eadd e e'), e, e'; simpl; ring.
+    - destruct e as [|a e]; [simpl eadd; rewrite fs_exps_nil_r; ring|].
+      destruct e' as [|a' e']; [simpl eadd; rewrite fs_exps_nil_r; ring|].
+      simpl eadd. simpl fs_exps. rewrite IH, fs_pow_add. ring.
+  Qed.
+
+  Lemma fs_compose_pmul_mono (env : list fs) (m : @mono F) (q : poly) :
+    fs_compose env (pmul_mono m q) == fs_mul (fs_mono env m) (fs_compose env q).
+  Proof.
+    induction q as [|a q IH].
+    - change (fs_const 0 == fs_mul (fs_mono env m) (fs_const 0)). ring.
+    - change (fs_add (fs_mono env (fst m * fst a, eadd (snd m) (snd a))) (fs_compose env (pmul_mono m q))
+              == fs_mul (fs_mono env m) (fs_add (fs_mono env a) (fs_compose env q))).
+      rewrite IH. unfold fs_mono. simpl fst. simpl snd.
+      rewrite fs_exps_eadd, !fs_scale_mul, fs_const_mul. ring.
+  Qed.
+
+  Lemma fs_compose_pmul (env : list fs) (p q : poly) :
+    fs_compose env (pmul p q) == fs_mul (fs_compose env p) (fs_compose env q).
+  Proof.
+    induction p as [|m p IH].
+    - change (fs_const 0 == fs_mul (fs_const 0) (fs_compose env q)). ring.
+    - change (fs_compose env (padd (pmul_mono m q) (pmul p q))
+              == fs_mul (fs_add (fs_mono env m) (fs_compose env p)) (fs_compose env q)).
+      rewrite fs_compose_padd, fs_compose_pmul_mono, IH. ring.
+  Qed.
+
+  Lemma fs_exps_unit (env : list fs) i s n :
+    length env <= n ->
+    fs_exps env (map (fun j => if Nat.eqb i j then 1%nat else 0%nat) (seq s n))
+    == if Nat.ltb i s then fs_const 1
+       else if Nat.ltb i (s + length env) then nth (i - s) env (fs_const 0) else fs_const 1.
+  Proof.
+    revert s n. induction env as [|x env IH]; intros s n Hn.
+    - simpl. rewrite Nat.add_0_r. destruct (Nat.ltb i s); reflexivity.
+    - destruct n as [|n]; [simpl in Hn; lia|]. simpl seq. simpl map. simpl fs_exps.
+      rewrite IH by (simpl in Hn; lia). simpl length.
+      destruct (Nat.eqb_spec i s) as [->|Hne].
+      + rewrite Nat.ltb_irrefl. replace (Nat.ltb s (S s)) with true by (symmetry; apply Nat.ltb_lt; lia).
+        replace (Nat.ltb s (s + S (length env))) with true by (symmetry; apply Nat.ltb_lt; lia).
+        rewrite Nat.sub_diag. simpl. ring.
+      + destruct (Nat.ltb_spec i s) as [Hlt|Hge].
+        * replace (Nat.ltb i (S s)) with true by (symmetry; apply Nat.ltb_lt; lia). simpl. ring.
+        * replace (Nat.ltb i (S s)) with false by (symmetry; apply Nat.ltb_ge; lia).
+          replace (S s + length env)%nat with (s + S (length env))%nat by lia.
+          destruct (Nat.ltb_spec i (s + S (length env))) as [Hl2|Hg2].
+          -- replace (i - s)%nat with (S (i - S s)) by lia. simpl. ring.
+          -- simpl. ring.
+  Qed.
+
+  Lemma fs_compose_pvar (env : list fs) n i :
+    i < length env -> length env <= n -> fs_compose env (pvar n i) == nth i env (fs_const 0).
+  Proof.
+    intros Hi Hn.
+    change (fs_compose env (pvar n i))
+      with (fs_add (fs_scale 1 (fs_exps env (map (fun j => if Nat.eqb i j then 1%nat else 0%nat) (seq 0 n))))
+                   (fs_const 0)).
+    rewrite (fs_exps_unit env i 0 n Hn).
+    replace (Nat.ltb i 0) with false by (symmetry; apply Nat.ltb_ge; lia).
+    replace (Nat.ltb i (0 + length env)) with true by (symmetry; apply Nat.ltb_lt; lia).
+    rewrite Nat.sub_0_r, fs_scale_mul. ring.
+  Qed.
+
+  (* ---- polynomials that do not involve the variable number kd ---- *)
+  Definition no_var (kd : nat) (p : poly) : Prop := forall m, In m p -> nth kd (snd m) 0%nat = 0%nat.
+
+  Lemma dec_at_zero j es : nth j es 0%nat = 0%nat -> dec_at j es = None.
+  Proof.
+    revert es. induction j as [|j IH]; intros [|e es] Hz; simpl in *; try reflexivity.
+    - subst e. reflexivity.
+    - rewrite IH by exact Hz. reflexivity.
+  Qed.
+  Lemma diff_poly_no_var kd (p : poly) : no_var kd p -> diff_poly kd p = [].
+  Proof.
+    intro Hp. unfold diff_poly. induction p as [|m p IH]; [reflexivity|].
+    simpl. unfold diff_mono. rewrite dec_at_zero by (apply Hp; left; reflexivity).
+    apply IH. intros m' Hm'. apply Hp. right. exact Hm'.
+  Qed.
+
+  Lemma In_padd (p q : poly) m :
+    In m (padd p q) -> exists m', (In m' p \/ In m' q) /\ snd m = snd m'.
+  Proof.
+    revert q. induction p as [|[c e] p IHp]; intro q.
+    - rewrite padd_nil_l. intro Hm. exists m. split; [right; exact Hm|reflexivity].
+    - induction q as [|[c' e'] q IHq].
+      + rewrite padd_nil_r. intro Hm. exists m. split; [left; exact Hm|reflexivity].
+      + rewrite padd_cons. destruct (exps_cmp e e') eqn:Ec.
+        * apply exps_cmp_eq in Ec. subst e'.
+          assert (Hrec : In m (padd p q) ->
+                         exists m', (In m' ((c, e) :: p) \/ In m' ((c', e) :: q)) /\ snd m = snd m').
+          { intro Hm. destruct (IHp q Hm) as [m' [[H1|H1] H2]]; exists m'; split; auto;
+              [left; right; exact H1|right; right; exact H1]. }
+          destruct (feqb (c + c') 0); [exact Hrec|].
+          intros [<-|Hm]; [|apply Hrec; exact Hm].
+          exists (c, e). split; [left; left; reflexivity|reflexivity].
+        * intros [<-|Hm].
+          -- exists (c, e). split; [left; left; reflexivity|reflexivity].
+          -- destruct (IHp _ Hm) as [m' [[H1|H1] H2]]; exists m'; split; auto.
+             left. right. exact H1.
+        * intros [<-|Hm].
+          -- exists (c', e'). split; [right; left; reflexivity|reflexivity].
+          -- destruct (IHq Hm) as [m' [[H1|H1] H2]]; exists m'; split; auto.
+             right. right. exact H1.
+  Qed.
+  Lemma no_var_padd kd p q : no_var kd p -> no_var kd q -> no_var kd (padd p q).
+  Proof.
+    intros Hp Hq m Hm. destruct (In_padd p q m Hm) as [m' [[H1|H1] H2]]; rewrite H2; auto.
+  Qed.
+
+  Lemma nth_eadd e e' i : nth i (eadd e e') 0%nat = (nth i e 0 + nth i e' 0)%nat.
+  Proof.
+    revert e' i. induction e as [|x e IH]; intros e' i.
+    - simpl eadd. destruct i; simpl; lia.
+    - destruct e' as [|y e']; [simpl eadd; destruct i; simpl; lia|].
+      destruct i as [|i]; simpl; [reflexivity|apply IH].
+  Qed.
+  Lemma no_var_pmul kd p q : no_var kd p -> no_var kd q -> no_var kd (pmul p q).
+  Proof.
+    intros Hp Hq. unfold pmul. induction p as [|m p IH]; [intros m' []|].
+    simpl fold_right. apply no_var_padd.
+    - intros m' Hm'. unfold pmul_mono in Hm'. apply in_map_iff in Hm'.
+      destruct Hm' as [m'' [<- Hm'']]. simpl snd. rewrite nth_eadd.
+      rewrite (Hp m) by (left; reflexivity). rewrite (Hq m'' Hm''). reflexivity.
+    - apply IH. intros m' Hm'. apply Hp. right. exact Hm'.
+  Qed.
+
+  Lemma dec_at_other j kd es k es' :
+    j <> kd -> dec_at j es = Some (k, es') -> nth kd es' 0%nat = nth kd es 0%nat.
+  Proof.
+    revert kd es k es'. induction j as [|j IH]; intros kd [|e es] k es' Hne Hd; simpl in Hd;
+      try discriminate.
+    - destruct e as [|e0]; [discriminate|]. inversion Hd; subst.
+      destruct kd as [|kd]; [congruence|]. reflexivity.
+    - destruct (dec_at j es) as [[k0 r]|] eqn:Er; [|discriminate]. inversion Hd; subst.
+      destruct kd as [|kd]; [reflexivity|]. simpl. apply (IH kd es k r); [lia|exact Er].
+  Qed.
+  Lemma no_var_diff kd j p : j <> kd -> no_var kd p -> no_var kd (diff_poly j p).
+  Proof.
+    intros Hne Hp m Hm. unfold diff_poly in Hm. apply in_flat_map in Hm.
+    destruct Hm as [m0 [Hm0 Hm]]. unfold diff_mono in Hm.
+    destruct (dec_at j (snd m0)) as [[k es']|] eqn:Ed; [|destruct Hm].
+    destruct Hm as [<-|[]]. simpl snd. rewrite (dec_at_other j kd _ _ _ Hne Ed).
+    apply Hp. exact Hm0.
+  Qed.
+  Lemma no_var_pvar kd n i : i <> kd -> no_var kd (pvar n i).
+  Proof.
+    intros Hne m [<-|[]]. simpl snd.
+    destruct (Nat.lt_ge_cases kd n) as [Hlt|Hge].
+    - rewrite nth_map_seq by exact Hlt. simpl. destruct (Nat.eqb_spec i kd); [congruence|reflexivity].
+    - apply nth_overflow. rewrite map_length, seq_length. exact Hge.
+  Qed.
+
+  (* ---- the recursion differentiates along the flow ---- *)
+  (* a field is autonomous when no monomial involves the time variable (index k*d) *)
+  Definition autonomous (v : vfield) : Prop :=
+    forall p, In p (vf_f v) -> no_var (vf_k v * vf_d v) p.
+
+  Lemma curve_env_length k d (a : nat -> nat -> F) t0 : length (curve_env k d a t0) = S (k * d).
+  Proof. unfold curve_env. rewrite app_length, map_length, seq_length. simpl. lia. Qed.
+  Lemma curve_env_nth k d (a : nat -> nat -> F) t0 idx :
+    idx < k * d ->
+    nth idx (curve_env k d a t0) (fs_const 0) = curve_fs a (idx / d) (idx mod d).
+  Proof.
+    intro Hi. unfold curve_env. rewrite app_nth1 by (rewrite map_length, seq_length; exact Hi).
+    rewrite nth_map_seq by exact Hi. reflexivity.
+  Qed.
+
+  Lemma no_var_nth_nil kd (l : list poly) b :
+    (forall p, In p l -> no_var kd p) -> no_var kd (nth b l []).
+  Proof.
+    intro Hl. destruct (Nat.lt_ge_cases b (length l)) as [Hb|Hb].
+    - apply Hl. apply nth_In. exact Hb.
+    - rewrite nth_overflow by exact Hb. intros m [].
+  Qed.
+
+  Lemma jvp_tangent_compose (v : vfield) t0 (a : nat -> nat -> F) idx :
+    is_formal_solution v t0 a -> idx < vf_k v * vf_d v ->
+    fs_compose (curve_env (vf_k v) (vf_d v) a t0)
+               (jvp_tangent v (idx / vf_d v) (idx mod vf_d v))
+    == fs_D (nth idx (curve_env (vf_k v) (vf_d v) a t0) (fs_const 0)).
+  Proof.
+    intros Hsol Hi. set (k := vf_k v) in *. set (d := vf_d v) in *.
+    assert (Hd : d <> 0%nat) by (intro E; rewrite E, Nat.mul_0_r in Hi; lia).
+    assert (Hj : (idx / d < k)%nat) by (apply Nat.div_lt_upper_bound; lia).
+    assert (Hb : (idx mod d < d)%nat) by (apply Nat.mod_upper_bound; exact Hd).
+    rewrite curve_env_nth by exact Hi. rewrite <- curve_fs_S.
+    unfold jvp_tangent. fold k d.
+    destruct (Nat.ltb_spec (S (idx / d)) k) as [Hlt|Hge].
+    - assert (Hidx' : S (idx / d) * d + idx mod d < k * d) by nia.
+      rewrite fs_compose_pvar by (rewrite curve_env_length; lia).
+      rewrite curve_env_nth by exact Hidx'.
+      replace ((S (idx / d) * d + idx mod d) / d)%nat with (S (idx / d)).
+      2:{ rewrite Nat.add_comm, Nat.div_add by exact Hd. rewrite (Nat.div_small (idx mod d) d Hb). reflexivity. }
+      replace ((S (idx / d) * d + idx mod d) mod d)%nat with (idx mod d)%nat.
+      2:{ rewrite Nat.add_comm, Nat.mod_add by exact Hd. rewrite (Nat.mod_small (idx mod d) d Hb). reflexivity. }
+      reflexivity.
+    - assert (Ek : S (idx / d) = k) by lia. rewrite Ek.
+      constructor. intro n. symmetry. apply Hsol. exact Hb.
+  Qed.
+
+  Lemma jvp_tangent_no_var (v : vfield) idx :
+    autonomous v -> idx < vf_k v * vf_d v ->
+    no_var (vf_k v * vf_d v) (jvp_tangent v (idx / vf_d v) (idx mod vf_d v)).
+  Proof.
+    intros Haut Hi. set (k := vf_k v) in *. set (d := vf_d v) in *.
+    assert (Hd : d <> 0%nat) by (intro E; rewrite E, Nat.mul_0_r in Hi; lia).
+    assert (Hb : (idx mod d < d)%nat) by (apply Nat.mod_upper_bound; exact Hd).
+    unfold jvp_tangent. fold k d.
+    destruct (Nat.ltb_spec (S (idx / d)) k) as [Hlt|Hge].
+    - apply no_var_pvar. nia.
+    - apply no_var_nth_nil. exact Haut.
+  Qed.
+
+  (* one step of the recursion on a polynomial without explicit time: composition
+     with the solution curve commutes with d/dtau *)
+  Lemma jvp_step_poly_compose (v : vfield) t0 (a : nat -> nat -> F) (g : poly) :
+    is_formal_solution v t0 a -> no_var (vf_k v * vf_d v) g ->
+    fs_compose (curve_env (vf_k v) (vf_d v) a t0) (jvp_step_poly v g)
+    == fs_D (fs_compose (curve_env (vf_k v) (vf_d v) a t0) g).
+  Proof.
+    intros Hsol Hg.
+    rewrite fs_D_compose, curve_env_length. set (env := curve_env (vf_k v) (vf_d v) a t0).
+    rewrite seq_S, map_app, Nat.add_0_l. simpl map at 2.
+    rewrite (diff_poly_no_var _ g Hg).
+    assert (Efold : forall (l : list nat),
+               (forall idx, In idx l -> idx < vf_k v * vf_d v) ->
+               fs_compose env
+                 (fold_right (fun idx acc =>
+                     padd (pmul (diff_poly idx g)
+                                (jvp_tangent v (idx / vf_d v) (idx mod vf_d v))) acc) [] l)
+               == fs_sum (map (fun v0 => fs_mul (fs_compose env (diff_poly v0 g))
+                                                 (fs_D (nth v0 env (fs_const 0)))) l)).
+    { induction l as [|idx l IH]; intro Hl.
+      - simpl. reflexivity.
+      - simpl fold_right. simpl map. simpl fs_sum.
+        rewrite fs_compose_padd, fs_compose_pmul, IH by (intros; apply Hl; right; assumption).
+        unfold env at 2. rewrite (jvp_tangent_compose v t0 a idx Hsol) by (apply Hl; left; reflexivity).
+        reflexivity. }
+    unfold jvp_step_poly. rewrite Efold by (intros idx Hidx; apply in_seq in Hidx; lia).
+    (* the time term vanishes *)
+    clear Efold. generalize (map (fun v0 => fs_mul (fs_compose env (diff_poly v0 g))
+                                                   (fs_D (nth v0 env (fs_const 0))))
+                                 (seq 0 (vf_k v * vf_d v))).
+    intro l. induction l as [|x l IH].
+    - change (fs_const 0 == fs_add (fs_mul (fs_const 0) (fs_D (nth (vf_k v * vf_d v) env (fs_const 0))))
+                                   (fs_const 0)). ring.
+    - simpl. rewrite <- IH. reflexivity.
+  Qed.
+
+  Lemma jvp_step_poly_no_var (v : vfield) (g : poly) :
+    autonomous v -> no_var (vf_k v * vf_d v) g -> no_var (vf_k v * vf_d v) (jvp_step_poly v g).
+  Proof.
+    intros Haut Hg. unfold jvp_step_poly.
+    assert (E : forall l, (forall idx, In idx l -> idx < vf_k v * vf_d v) ->
+                no_var (vf_k v * vf_d v)
+                  (fold_right (fun idx acc =>
+                     padd (pmul (diff_poly idx g)
+                                (jvp_tangent v (idx / vf_d v) (idx mod vf_d v))) acc) [] l)).
+    { induction l as [|idx l IH]; intro Hl.
+      - intros m [].
+      - simpl. apply no_var_padd.
+        + apply no_var_pmul.
+          * apply no_var_diff; [|exact Hg]. pose proof (Hl idx (or_introl eq_refl)). lia.
+          * apply jvp_tangent_no_var; [exact Haut|apply Hl; left; reflexivity].
+        + apply IH. intros; apply Hl; right; assumption. }
+    apply E. intros idx Hidx. apply in_seq in Hidx. lia.
+  Qed.
+
+  Lemma jvp_polys_length (v : vfield) n : length (jvp_polys v n) = length (vf_f v).
+  Proof. induction n as [|n IH]; simpl; [reflexivity|]. unfold jvp_step. rewrite map_length. exact IH. Qed.
+
+  Lemma jvp_step_poly_nil (v : vfield) : jvp_step_poly v [] = [].
+  Proof.
+    unfold jvp_step_poly. induction (seq 0 (vf_k v * vf_d v)) as [|idx l IH]; [reflexivity|].
+    cbn [fold_right]. rewrite IH. reflexivity.
+  Qed.
+
+  Lemma nth_jvp_step (v : vfield) (G : list poly) b :
+    nth b (jvp_step v G) [] = jvp_step_poly v (nth b G []).
+  Proof.
+    unfold jvp_step. destruct (Nat.lt_ge_cases b (length G)) as [Hb|Hb].
+    - rewrite (nth_indep _ [] (jvp_step_poly v [])) by (rewrite map_length; exact Hb).
+      apply map_nth.
+    - rewrite !nth_overflow by (try rewrite map_length; exact Hb). symmetry. apply jvp_step_poly_nil.
+  Qed.
+
+  Lemma jvp_polys_invariant (v : vfield) t0 (a : nat -> nat -> F) n b :
+    is_formal_solution v t0 a -> autonomous v -> b < vf_d v ->
+    no_var (vf_k v * vf_d v) (nth b (jvp_polys v n) []) /\
+    fs_compose (curve_env (vf_k v) (vf_d v) a t0) (nth b (jvp_polys v n) [])
+    == curve_fs a (vf_k v + n) b.
+  Proof.
+    intros Hsol Haut Hb. induction n as [|n [IHv IHc]].
+    - split.
+      + apply no_var_nth_nil. exact Haut.
+      + rewrite Nat.add_0_r. constructor. intro m. symmetry. apply Hsol. exact Hb.
+    - simpl jvp_polys. rewrite nth_jvp_step. split.
+      + apply jvp_step_poly_no_var; assumption.
+      + rewrite jvp_step_poly_compose by assumption. rewrite IHc.
+        replace (vf_k v + S n)%nat with (S (vf_k v + n)) by lia. reflexivity.
+  Qed.
+
+  Lemma jvp_iter_polys (v : vfield) n m :
+    jvp_iter v (jvp_polys v m) n = map (fun i => jvp_polys v (m + i)) (seq 0 n).
+  Proof.
+    revert m. induction n as [|n IH]; intro m; [reflexivity|].
+    simpl jvp_iter. change (jvp_step v (jvp_polys v m)) with (jvp_polys v (S m)).
+    rewrite IH. simpl seq. simpl map. rewrite Nat.add_0_r. f_equal.
+    rewrite <- seq_shift, map_map. apply map_ext. intro i.
+    replace (m + S i)%nat with (S (m + i)) by lia. reflexivity.
+  Qed.
+
+  (* T10.3 *)
+  Theorem via_jvp_correct_autonomous (v : vfield) (t0 : F) (inits : list tvec) (num : nat) :
+    1 <= vf_k v -> wf_problem v inits -> autonomous v ->
+    via_jvp_model v inits t0 num = Some (spec_derivs v t0 inits num).
+  Proof.
+    intros Hk Hwf Haut. pose proof Hwf as [Hf [Hi Hd]].
+    set (a := sol v t0 (normalise inits)).
+    assert (Hsol : is_formal_solution v t0 a)
+      by (apply spec_is_formal_solution; rewrite normalise_length; exact Hi).
+    destruct num as [|num'].
+    - simpl. unfold spec_derivs. simpl. rewrite denormalise_normalise. reflexivity.
+    - unfold via_jvp_model. rewrite Hi, Nat.eqb_refl. f_equal.
+      change (vf_f v) with (jvp_polys v 0). rewrite jvp_iter_polys.
+      apply all_good_is_spec; [exact Hwf| |].
+      + rewrite app_length, map_length, map_length, seq_length. lia.
+      + intros n Hn.
+        destruct (Nat.lt_ge_cases n (vf_k v)) as [Hlt|Hge].
+        * rewrite app_nth1 by lia. apply sol_inits; assumption.
+        * rewrite app_length, !map_length, seq_length in Hn.
+          rewrite app_nth2 by lia. rewrite Hi. rewrite map_map.
+          rewrite nth_map_seq by lia. simpl plus.
+          set (i := (n - vf_k v)%nat).
+          rewrite (map_nth_seq _ (jvp_polys v i) []). rewrite jvp_polys_length, Hf.
+          unfold dvec. apply map_ext_in. intros b Hb. apply in_seq in Hb.
+          rewrite <- (curve_env_at0 (vf_k v) (vf_d v) a t0 inits Hi
+                        (fun j Hj => sol_inits v t0 inits j Hwf Hj)).
+          rewrite <- (fs_compose_at0 (curve_env (vf_k v) (vf_d v) a t0) (nth b (jvp_polys v i) [])).
+          destruct (jvp_polys_invariant v t0 a i b Hsol Haut) as [_ Hc]; [lia|].
+          rewrite (fs_eq_at _ _ Hc 0%nat). rewrite curve_fs_rise, rise_0.
+          replace (0 + (vf_k v + i))%nat with n by (unfold i; lia).
+          replace (vf_k v + i)%nat with n by (unfold i; lia). reflexivity.
+  Qed.
+
+  (* T10.5: the routines agree on their common domain *)
+  Corollary routines_agree (v : vfield) (t0 : F) (inits : list tvec) (num : nat) :
+    1 <= vf_k v -> wf_problem v inits ->
+    padded_scan_model v inits t0 num = unroll_model v inits t0 num /\
+    (autonomous v -> via_jvp_model v inits t0 num = unroll_model v inits t0 num).
+  Proof.
+    intros Hk Hwf. split.
+    - rewrite padded_scan_correct, unroll_correct by assumption. reflexivity.
+    - intro Haut. rewrite via_jvp_correct_autonomous, unroll_correct by assumption. reflexivity.
+  Qed.
+
+  (* ---- the repaired recursion: t as one more variable with tangent 1 ---- *)
+  (* F_{n+1} = <grad_x F_n, (x_1, .., f)> + dF_n/dt : what jetexpand_ode_via_jvp
+     would compute if t were passed to jvp as an extra primal with tangent 1 *)
+  Definition pone : poly := [(1, [])].
+  Definition jvp_step_poly_fixed (v : vfield) (g : poly) : poly :=
+    padd (jvp_step_poly v g) (pmul (diff_poly (vf_k v * vf_d v) g) pone).
+  Fixpoint jvp_polys_fixed (v : vfield) (n : nat) : list poly :=
+    match n with O => vf_f v | S n' => map (jvp_step_poly_fixed v) (jvp_polys_fixed v n') end.
+  Definition via_jvp_fixed_model (v : vfield) (inits : list tvec) (t : F) (num : nat)
+    : option (list tvec) :=
+    match num with
+    | O => Some inits
+    | S _ =>
+      if Nat.eqb (length inits) (vf_k v)
+      then Some (inits ++ map (fun n => map (eval_poly (vf_env inits t)) (jvp_polys_fixed v n))
+                              (seq 0 num))
+      else None
+    end.
+
+  Lemma fs_compose_pone (env : list fs) : fs_compose env pone == fs_const 1.
+  Proof.
+    change (fs_add (fs_scale 1 (fs_exps env [])) (fs_const 0) == fs_const 1).
+    rewrite fs_exps_nil_r, fs_scale_mul. ring.
+  Qed.
+
+  Lemma jvp_step_poly_fixed_compose (v : vfield) t0 (a : nat -> nat -> F) (g : poly) :
+    is_formal_solution v t0 a ->
+    fs_compose (curve_env (vf_k v) (vf_d v) a t0) (jvp_step_poly_fixed v g)
+    == fs_D (fs_compose (curve_env (vf_k v) (vf_d v) a t0) g).
+  Proof.
+    intros Hsol. unfold jvp_step_poly_fixed.
+    rewrite fs_compose_padd, fs_compose_pmul, fs_compose_pone.
+    rewrite fs_D_compose, curve_env_length. set (env := curve_env (vf_k v) (vf_d v) a t0).
+    rewrite seq_S, map_app, Nat.add_0_l. simpl map at 2.
+    assert (Etime : fs_D (nth (vf_k v * vf_d v) env (fs_const 0)) == fs_const 1).
+    { unfold env, curve_env. rewrite app_nth2 by (rewrite map_length, seq_length; lia).
+      rewrite map_length, seq_length, Nat.sub_diag. simpl nth. apply fs_D_time. }
+    assert (Efold : forall (l : list nat),
+               (forall idx, In idx l -> idx < vf_k v * vf_d v) ->
+               fs_compose env
+                 (fold_right (fun idx acc =>
+                     padd (pmul (diff_poly idx g)
+                                (jvp_tangent v (idx / vf_d v) (idx mod vf_d v))) acc) [] l)
+               == fs_sum (map (fun v0 => fs_mul (fs_compose env (diff_poly v0 g))
+                                                 (fs_D (nth v0 env (fs_const 0)))) l)).
+    { induction l as [|idx l IH]; intro Hl.
+      - simpl. reflexivity.
+      - simpl fold_right. simpl map. simpl fs_sum.
+        rewrite fs_compose_padd, fs_compose_pmul, IH by (intros; apply Hl; right; assumption).
+        unfold env at 2. rewrite (jvp_tangent_compose v t0 a idx Hsol) by (apply Hl; left; reflexivity).
+        reflexivity. }
+    unfold jvp_step_poly. rewrite Efold by (intros idx Hidx; apply in_seq in Hidx; lia).
+    clear Efold. generalize (map (fun v0 => fs_mul (fs_compose env (diff_poly v0 g))
+                                                   (fs_D (nth v0 env (fs_const 0))))
+                                 (seq 0 (vf_k v * vf_d v))).
+    intro l. induction l as [|x l IH].
+    - simpl. rewrite Etime. ring.
+    - simpl. rewrite <- IH. ring.
+  Qed.
+
+  Lemma jvp_polys_fixed_length (v : vfield) n : length (jvp_polys_fixed v n) = length (vf_f v).
+  Proof. induction n as [|n IH]; simpl; [reflexivity|]. rewrite map_length. exact IH. Qed.
+
+  Lemma jvp_step_poly_fixed_nil (v : vfield) : jvp_step_poly_fixed v [] = [].
+  Proof. unfold jvp_step_poly_fixed. rewrite jvp_step_poly_nil. reflexivity. Qed.
+
+  Lemma jvp_polys_fixed_invariant (v : vfield) t0 (a : nat -> nat -> F) n b :
+    is_formal_solution v t0 a -> b < vf_d v ->
+    fs_compose (curve_env (vf_k v) (vf_d v) a t0) (nth b (jvp_polys_fixed v n) [])
+    == curve_fs a (vf_k v + n) b.
+  Proof.
+    intros Hsol Hb. induction n as [|n IHc].
+    - rewrite Nat.add_0_r. constructor. intro m. symmetry. apply Hsol. exact Hb.
+    - simpl jvp_polys_fixed.
+      assert (E : nth b (map (jvp_step_poly_fixed v) (jvp_polys_fixed v n)) []
+                  = jvp_step_poly_fixed v (nth b (jvp_polys_fixed v n) [])).
+      { destruct (Nat.lt_ge_cases b (length (jvp_polys_fixed v n))) as [Hl|Hl].
+        - rewrite (nth_indep _ [] (jvp_step_poly_fixed v [])) by (rewrite map_length; exact Hl).
+          apply map_nth.
+        - rewrite !nth_overflow by (try rewrite map_length; exact Hl).
+          symmetry. apply jvp_step_poly_fixed_nil. }
+      rewrite E, jvp_step_poly_fixed_compose by assumption. rewrite IHc.
+      replace (vf_k v + S n)%nat with (S (vf_k v + n)) by lia. reflexivity.
+  Qed.
+
+  (* the repaired recursion is correct for EVERY polynomial field, time-dependent or not *)
+  Theorem via_jvp_fixed_correct (v : vfield) (t0 : F) (inits : list tvec) (num : nat) :
+    1 <= vf_k v -> wf_problem v inits ->
+    via_jvp_fixed_model v inits t0 num = Some (spec_derivs v t0 inits num).
+  Proof.
+    intros Hk Hwf. pose proof Hwf as [Hf [Hi Hd]].
+    set (a := sol v t0 (normalise inits)).
+    assert (Hsol : is_formal_solution v t0 a)
+      by (apply spec_is_formal_solution; rewrite normalise_length; exact Hi).
+    destruct num as [|num'].
+    - simpl. unfold spec_derivs. simpl. rewrite denormalise_normalise. reflexivity.
+    - unfold via_jvp_fixed_model. rewrite Hi, Nat.eqb_refl. f_equal.
+      apply all_good_is_spec; [exact Hwf| |].
+      + rewrite app_length, map_length, seq_length. lia.
+      + intros n Hn.
+        destruct (Nat.lt_ge_cases n (vf_k v)) as [Hlt|Hge].
+        * rewrite app_nth1 by lia. apply sol_inits; assumption.
+        * rewrite app_length, !map_length, seq_length in Hn.
+          rewrite app_nth2 by lia. rewrite Hi.
+          rewrite nth_map_seq by lia. simpl plus.
+          set (i := (n - vf_k v)%nat).
+          rewrite (map_nth_seq _ (jvp_polys_fixed v i) []). rewrite jvp_polys_fixed_length, Hf.
+          unfold dvec. apply map_ext_in. intros b Hb. apply in_seq in Hb.
+          rewrite <- (curve_env_at0 (vf_k v) (vf_d v) a t0 inits Hi
+                        (fun j Hj => sol_inits v t0 inits j Hwf Hj)).
+          rewrite <- (fs_compose_at0 (curve_env (vf_k v) (vf_d v) a t0)
+                                     (nth b (jvp_polys_fixed v i) [])).
+          pose proof (jvp_polys_fixed_invariant v t0 a i b Hsol) as Hc.
+          rewrite (fs_eq_at _ _ (Hc ltac:(lia)) 0%nat). rewrite curve_fs_rise, rise_0.
+          replace (0 + (vf_k v + i))%nat with n by (unfold i; lia).
+          replace (vf_k v + i)%nat with n by (unfold i; lia). reflexivity.
+  Qed.
+End JetProofs.
+
+(* ============================================== Part 6: Newton doubling *)
+Section Doubling.
+  Context {F : Type} `{FL : FieldLaws F}.
+  Local Open Scope F_scope.
+  Add Field FDbl : fth.
+  Add Ring FSringD : fs_ring_theory.
+  Local Notation fs := (@fs F).
+  Local Notation series := (@series F).
+  Local Notation poly := (@poly F).
+  Local Notation vfield := (@vfield F).
+  Local Notation tvec := (list F).
+  Local Infix "==" := fs_eq (at level 70).
+
+  (* ---- series whose coefficients below n vanish ---- *)
+  Definition lowzero (n : nat) (a : fs) : Prop := forall i, i < n -> a i = 0.
+
+  Lemma lowzero_eq n a b : a == b -> lowzero n a -> lowzero n b.
+  Proof. intros [E] Ha i Hi. rewrite <- E. apply Ha. exact Hi. Qed.
+  Lemma lowzero_const0 n : lowzero n (fs_const 0).
+  Proof. intros i _. unfold fs_const. destruct i; reflexivity. Qed.
+  Lemma lowzero_add n a b : lowzero n a -> lowzero n b -> lowzero n (fs_add a b).
+  Proof. intros Ha Hb i Hi. unfold fs_add. rewrite Ha, Hb by exact Hi. ring. Qed.
+  Lemma lowzero_mul n m a b : lowzero n a -> lowzero m b -> lowzero (n + m) (fs_mul a b).
+  Proof.
+    intros Ha Hb i Hi. unfold fs_mul.
+    rewrite (vsum_ext (S i) _ (fun _ => 0)); [apply vsum_zero|].
+    intros j Hj. destruct (Nat.lt_ge_cases j n) as [Hlt|Hge].
+    - rewrite Ha by exact Hlt. ring.
+    - rewrite Hb by lia. ring.
+  Qed.
+  Lemma lowzero_mul_l n a b : lowzero n a -> lowzero n (fs_mul a b).
+  Proof.
+    intro Ha. replace n with (n + 0)%nat by lia. apply lowzero_mul; [exact Ha|].
+    intros i Hi. lia.
+  Qed.
+  Lemma lowzero_mul_r n a b : lowzero n b -> lowzero n (fs_mul a b).
+  Proof. intro Hb. apply (lowzero_eq n (fs_mul b a)); [ring|]. apply lowzero_mul_l. exact Hb. Qed.
+  Lemma lowzero_sum {A} n (g : A -> fs) l :
+    (forall x, In x l -> lowzero n (g x)) -> lowzero n (fs_sum (map g l)).
+  Proof.
+    induction l as [|x l IH]; intro Hg; simpl; [apply lowzero_const0|].
+    apply lowzero_add; [apply Hg; left; reflexivity|]. apply IH. intros; apply Hg; right; assumption.
+  Qed.
+
+  (* ---- first-order Taylor expansion of a composition, modulo tau^(2 deg) ---- *)
+  Definition dpow (x : fs) (e : nat) : fs :=
+    match e with O => fs_const 0 | S e' => fs_scale (fnat e) (fs_pow x e') end.
+
+  Lemma taylor_pow deg (x h : fs) e :
+    lowzero deg h ->
+    exists r, lowzero (deg + deg) r /\
+              fs_pow (fs_add x h) e == fs_add (fs_add (fs_pow x e) (fs_mul (dpow x e) h)) r.
+  Proof.
+    intro Hh. induction e as [|e [r [Hr E]]].
+    - exists (fs_const 0). split; [apply lowzero_const0|]. simpl. ring.
+    - exists (fs_add (fs_mul (fs_mul h (dpow x e)) h) (fs_mul (fs_add x h) r)). split.
+      + apply lowzero_add.
+        * apply lowzero_mul; [apply lowzero_mul_l; exact Hh|exact Hh].
+        * apply lowzero_mul_r. exact Hr.
+      + change (fs_pow (fs_add x h) (S e)) with (fs_mul (fs_add x h) (fs_pow (fs_add x h) e)).
+        rewrite E. destruct e as [|e'].
+        * simpl dpow. simpl fs_pow. rewrite !fs_scale_mul.
+          assert (E1 : fs_const (fnat 1) == fs_const 1) by (constructor; intro n; reflexivity).
+          rewrite E1. ring.
+        * unfold dpow. rewrite !fs_scale_mul. rewrite (fnat_succ (S e')), fs_const_add.
+          change (fs_pow x (S (S e'))) with (fs_mul x (fs_pow x (S e'))).
+          change (fs_pow x (S e')) with (fs_mul x (fs_pow x e')). ring.
+  Qed.
+
+  Lemma dexps_cons_0 (x : fs) env e es :
+    dexps (x :: env) (e :: es) 0 == fs_mul (dpow x e) (fs_exps env es).
+  Proof.
+    unfold dexps. simpl dec_at. destruct e as [|e'].
+    - simpl. ring.
+    - simpl fs_exps. unfold dpow. rewrite !fs_scale_mul. ring.
+  Qed.
+  Lemma dexps_cons_S (x : fs) env e es v :
+    dexps (x :: env) (e :: es) (S v) == fs_mul (fs_pow x e) (dexps env es v).
+  Proof.
+    unfold dexps. simpl dec_at. destruct (dec_at v es) as [[k r]|].
+    - simpl fs_exps. rewrite !fs_scale_mul. ring.
+    - ring.
+  Qed.
+
+  Lemma taylor_exps deg (env hs : list fs) es :
+    length hs = length env -> (forall h, In h hs -> lowzero deg h) ->
+    exists r, lowzero (deg + deg) r /\
+      fs_exps (zipw fs_add env hs) es
+      == fs_add (fs_add (fs_exps env es)
+                        (fs_sum (map (fun v => fs_mul (dexps env es v) (nth v hs (fs_const 0)))
+                                     (seq 0 (length env)))))
+                r.
+  Proof.
+    revert hs es. induction env as [|x env IH]; intros hs es HL Hh.
+    - destruct hs; [|discriminate]. exists (fs_const 0). split; [apply lowzero_const0|].
+      simpl. destruct es; ring.
+    - destruct hs as [|h hs]; [discriminate|]. simpl in HL.
+      destruct es as [|e es].
+      + exists (fs_const 0). split; [apply lowzero_const0|].
+        simpl zipw. simpl fs_exps.
+        rewrite (fs_sum_ext _ (fun _ => fs_const 0)).
+        * rewrite fs_sum_zero. ring.
+        * intros v _. unfold dexps. destruct v; simpl; ring.
+      + destruct (IH hs es) as [r' [Hr' E']]; [lia|intros; apply Hh; right; assumption|].
+        destruct (taylor_pow deg x h e) as [rp [Hrp Ep]]; [apply Hh; left; reflexivity|].
+        set (R0 := fs_exps env es).
+        set (L := fs_sum (map (fun v => fs_mul (dexps env es v) (nth v hs (fs_const 0)))
+                              (seq 0 (length env)))).
+        assert (HL' : lowzero deg L).
+        { unfold L. apply lowzero_sum. intros v Hv. apply in_seq in Hv. apply lowzero_mul_r.
+          apply Hh. right. apply nth_In. lia. }
+        assert (Hh0 : lowzero deg h) by (apply Hh; left; reflexivity).
+        exists (fs_add (fs_add (fs_mul (fs_pow x e) r')
+                               (fs_mul (fs_mul (dpow x e) h) (fs_add L r')))
+                       (fs_mul rp (fs_add (fs_add R0 L) r'))).
+        split.
+        * apply lowzero_add; [apply lowzero_add|].
+          -- apply lowzero_mul_r. exact Hr'.
+          -- apply lowzero_mul.
+             ++ apply lowzero_mul_r. exact Hh0.
+             ++ apply lowzero_add; [exact HL'|].
+                intros i Hi. apply Hr'. lia.
+          -- apply lowzero_mul_l. exact Hrp.
+        * simpl zipw. simpl fs_exps. rewrite E', Ep. fold R0 L.
+          simpl length. rewrite <- cons_seq, <- seq_shift. rewrite map_cons, map_map. simpl fs_sum.
+          rewrite dexps_cons_0. fold R0. simpl nth at 1.
+          rewrite (fs_sum_ext
+                     (fun v => fs_mul (dexps (x :: env) (e :: es) (S v)) (nth v hs (fs_const 0)))
+                     (fun v => fs_mul (fs_pow x e)
+                                      (fs_mul (dexps env es v) (nth v hs (fs_const 0))))).
+          2:{ intros v _. rewrite dexps_cons_S. ring. }
+          rewrite fs_sum_mul_l. fold L. ring.
+  Qed.
+
+  Theorem taylor_compose deg (env hs : list fs) (p : poly) :
+    length hs = length env -> (forall h, In h hs -> lowzero deg h) ->
+    exists r, lowzero (deg + deg) r /\
+      fs_compose (zipw fs_add env hs) p
+      == fs_add (fs_add (fs_compose env p)
+                        (fs_sum (map (fun v => fs_mul (fs_compose env (diff_poly v p))
+                                                      (nth v hs (fs_const 0)))
+                                     (seq 0 (length env)))))
+                r.
+  Proof.
+    intros HL Hh. induction p as [|m p [r [Hr E]]].
+    - exists (fs_const 0). split; [apply lowzero_const0|].
+      rewrite !fs_compose_nil.
+      rewrite (fs_sum_ext _ (fun _ => fs_const 0)).
+      + rewrite fs_sum_zero. ring.
+      + intros v _. change (diff_poly v (@nil (@mono F))) with (@nil (@mono F)).
+        rewrite fs_compose_nil. ring.
+    - destruct (taylor_exps deg env hs (snd m) HL Hh) as [rm [Hrm Em]].
+      exists (fs_add (fs_mul (fs_const (fst m)) rm) r). split.
+      + apply lowzero_add; [apply lowzero_mul_r; exact Hrm|exact Hr].
+      + rewrite !fs_compose_cons, E. unfold fs_mono. rewrite Em, !fs_scale_mul.
+        rewrite (fs_sum_ext
+                   (fun v => fs_mul (fs_compose env (diff_poly v (m :: p))) (nth v hs (fs_const 0)))
+                   (fun v => fs_add
+                               (fs_mul (fs_const (fst m))
+                                       (fs_mul (dexps env (snd m) v) (nth v hs (fs_const 0))))
+                               (fs_mul (fs_compose env (diff_poly v p)) (nth v hs (fs_const 0))))).
+        2:{ intros v _. unfold diff_poly at 1. simpl flat_map.
+            rewrite fs_compose_app, fs_compose_diff_mono, fs_scale_mul.
+            fold (diff_poly v p). ring. }
+        rewrite fs_sum_add, fs_sum_mul_l. ring.
+  Qed.
+
+  (* ---- tools ---- *)
+  Lemma fs_compose_ext (env env' : list fs) (p : poly) :
+    Forall2 fs_eq env env' -> fs_compose env p == fs_compose env' p.
+  Proof.
+    intro E. constructor. intro n. apply (fs_compose_agreeN (S n)); [|lia].
+    induction E as [|x y l l' Exy E IH]; constructor; [apply fs_eq_agreeN; exact Exy|exact IH].
+  Qed.
+
+  Lemma fs_exps_no_var_last (X : list fs) (T T' : fs) es :
+    nth (length X) es 0%nat = 0%nat -> fs_exps (X ++ [T]) es == fs_exps (X ++ [T']) es.
+  Proof.
+    revert es. induction X as [|x X IH]; intros es Hz.
+    - destruct es as [|e es]; [reflexivity|]. simpl in Hz. subst e. simpl. ring.
+    - destruct es as [|e es]; [reflexivity|]. simpl app. simpl fs_exps.
+      rewrite (IH es) by exact Hz. reflexivity.
+  Qed.
+  Lemma fs_compose_no_var_last (X : list fs) (T T' : fs) (p : poly) :
+    no_var (length X) p -> fs_compose (X ++ [T]) p == fs_compose (X ++ [T']) p.
+  Proof.
+    intro Hp. induction p as [|m p IH]; [reflexivity|].
+    rewrite !fs_compose_cons. rewrite IH by (intros m' Hm'; apply Hp; right; exact Hm').
+    unfold fs_mono. rewrite (fs_exps_no_var_last X T T') by (apply Hp; left; reflexivity).
+    reflexivity.
+  Qed.
+
+  Lemma vsum_split a b (f : nat -> F) : vsum (a + b) f = vsum a f + vsum b (fun j => f (a + j)%nat).
+  Proof.
+    induction b as [|b IH].
+    - rewrite Nat.add_0_r. simpl. ring.
+    - replace (a + S b)%nat with (S (a + b)) by lia. simpl. rewrite IH. ring.
+  Qed.
+
+  (* tau^n * e *)
+  Definition shift (n : nat) (e : fs) : fs := fun j => if Nat.ltb j n then 0 else e (j - n)%nat.
+
+  Lemma fs_mul_shift (A e : fs) n i : fs_mul A (shift n e) (n + i)%nat = fs_mul A e i.
+  Proof.
+    unfold fs_mul. replace (S (n + i)) with (S i + n)%nat by lia. rewrite vsum_split.
+    rewrite (vsum_ext n _ (fun _ => 0)).
+    - rewrite vsum_zero. transitivity (vsum (S i) (fun j => A j * e (i - j)%nat)); [|reflexivity].
+      rewrite (vsum_ext (S i) (fun j => A j * shift n e (n + i - j)%nat)
+                        (fun j => A j * e (i - j)%nat)); [ring|].
+      intros j Hj. unfold shift. replace (Nat.ltb (n + i - j) n) with false
+        by (symmetry; apply Nat.ltb_ge; lia).
+      replace (n + i - j - n)%nat with (i - j)%nat by lia. reflexivity.
+    - intros j Hj. unfold shift. replace (Nat.ltb (n + i - (S i + j)) n) with true
+        by (symmetry; apply Nat.ltb_lt; lia). ring.
+  Qed.
+
+  Lemma lowzero_shift n e : lowzero n (shift n e).
+  Proof. intros i Hi. unfold shift. replace (Nat.ltb i n) with true by (symmetry; apply Nat.ltb_lt; lia). reflexivity. Qed.
+
+  Lemma fs_sum_at {A} (g : A -> fs) l n :
+    fs_sum (map g l) n = fold_right (fun x acc => g x n + acc) 0 l.
+  Proof.
+    induction l as [|x l IH]; simpl; [unfold fs_const; destruct n; reflexivity|].
+    unfold fs_add at 1. rewrite IH. reflexivity.
+  Qed.
+  Lemma fold_seq_vsum (g : nat -> F) n : fold_right (fun x acc => g x + acc) 0 (seq 0 n) = vsum n g.
+  Proof.
+    induction n as [|n IH]; [reflexivity|]. rewrite seq_S, fold_right_app. simpl.
+    rewrite <- IH. clear IH. generalize (seq 0 n). intro l.
+    induction l as [|x l IHl]; simpl; [ring|]. rewrite IHl. ring.
+  Qed.
+
+  Lemma zipw_app {A B C} (h : A -> B -> C) l1 l1' l2 l2' :
+    length l1 = length l2 -> zipw h (l1 ++ l1') (l2 ++ l2') = zipw h l1 l2 ++ zipw h l1' l2'.
+  Proof.
+    revert l2. induction l1 as [|x l1 IH]; intros [|y l2] HL; simpl in HL; try discriminate.
+    - reflexivity.
+    - simpl. rewrite IH by lia. reflexivity.
+  Qed.
+  Lemma zipw_map_both {A B C D} (h : B -> C -> D) (g1 : A -> B) (g2 : A -> C) l :
+    zipw h (map g1 l) (map g2 l) = map (fun x => h (g1 x) (g2 x)) l.
+  Proof. induction l as [|x l IH]; simpl; [reflexivity|]. rewrite IH. reflexivity. Qed.
+
+  Lemma set_nth_length {A} n (x : A) l : length (set_nth n x l) = length l.
+  Proof. revert n. induction l as [|y l IH]; intros [|n]; simpl; try reflexivity. rewrite IH. reflexivity. Qed.
+  Lemma set_nth_same {A} n (x : A) l d : n < length l -> nth n (set_nth n x l) d = x.
+  Proof. revert n. induction l as [|y l IH]; intros [|n] Hn; simpl in *; try lia; [reflexivity|]. apply IH. lia. Qed.
+  Lemma set_nth_other {A} n m (x : A) l d : n <> m -> nth m (set_nth n x l) d = nth m l d.
+  Proof.
+    revert n m. induction l as [|y l IH]; intros [|n] [|m] Hne; simpl; try reflexivity; try lia.
+    apply IH. lia.
+  Qed.
+
+  (* ---- the Newton step on the level of coefficients ---- *)
+  (* truncation of the solution series below deg *)
+  Definition ctrunc (a : nat -> nat -> F) (deg b : nat) : fs :=
+    fun n => if Nat.ltb n deg then a n b else 0.
+  Definition envC (a : nat -> nat -> F) (deg d : nat) (t : F) : list fs :=
+    map (ctrunc a deg) (seq 0 d) ++ [fs_const t].
+
+  Lemma fs_sum_app' (l1 l2 : list fs) : fs_sum (l1 ++ l2) == fs_add (fs_sum l1) (fs_sum l2).
+  Proof. induction l1 as [|x l1 IH]; simpl; [ring|]. rewrite IH. ring. Qed.
+
+  Lemma newton_coefficient (v : vfield) (t : F) (a : nat -> nat -> F) deg i b' :
+    vf_k v = 1%nat -> autonomous v -> is_formal_solution v t a ->
+    i < deg -> b' < vf_d v ->
+    fnat (S (deg + i)) * a (S (deg + i)) b'
+    = fs_compose (envC a deg (vf_d v) t) (nth b' (vf_f v) []) (deg + i)%nat
+      + vsum (vf_d v)
+             (fun b => fs_mul (fs_compose (envC a deg (vf_d v) t) (diff_poly b (nth b' (vf_f v) [])))
+                              (fun j => a (deg + j)%nat b) i).
+  Proof.
+    intros Hk Haut Hsol Hi Hb'. set (d := vf_d v) in *. set (p := nth b' (vf_f v) []).
+    assert (Hd : d <> 0%nat) by lia.
+    (* the formal solution, coefficient deg + i *)
+    pose proof (Hsol (deg + i)%nat b' Hb') as E0. rewrite Hk in E0. fold d p in E0.
+    rewrite curve_fs_rise in E0. simpl rise in E0.
+    replace (deg + i + 1)%nat with (S (deg + i)) in E0 by lia.
+    transitivity (fnat (S (deg + i)) * 1 * a (S (deg + i)) b'); [ring|]. rewrite E0. clear E0.
+    set (U := fun b : nat => (fun n => a n b) : fs).
+    set (Eb := fun b : nat => (fun j => a (deg + j)%nat b) : fs).
+    set (hs := map (fun b => shift deg (Eb b)) (seq 0 d) ++ [fs_const 0]).
+    (* rewrite the environment: solution curve = truncation + tau^deg * tail *)
+    assert (E1 : fs_compose (curve_env 1 d a t) p == fs_compose (zipw fs_add (envC a deg d t) hs) p).
+    { transitivity (fs_compose (map U (seq 0 d) ++ [fs_time t]) p).
+      { apply fs_compose_ext. unfold curve_env. rewrite Nat.mul_1_l. apply Forall2_app.
+        - apply Forall2_map_seq. intros idx Hidx. constructor. intro n.
+          rewrite curve_fs_rise. rewrite Nat.div_small, Nat.mod_small by lia.
+          simpl rise. rewrite Nat.add_0_r. unfold U. ring.
+        - constructor; [reflexivity|constructor]. }
+      transitivity (fs_compose (map U (seq 0 d) ++ [fs_const t]) p).
+      { apply fs_compose_no_var_last. rewrite map_length, seq_length.
+        unfold p. apply no_var_nth_nil. intros q Hq. specialize (Haut q Hq).
+        rewrite Hk, Nat.mul_1_l in Haut. exact Haut. }
+      apply fs_compose_ext. unfold envC, hs.
+      rewrite zipw_app by (rewrite !map_length; reflexivity). rewrite zipw_map_both.
+      apply Forall2_app.
+      - apply Forall2_map_seq. intros b Hb. constructor. intro n.
+        unfold U, fs_add, ctrunc, shift, Eb.
+        destruct (Nat.ltb_spec n deg) as [Hlt|Hge].
+        + ring.
+        + replace (deg + (n - deg))%nat with n by lia. ring.
+      - simpl. constructor; [|constructor]. constructor. intro n. unfold fs_add, fs_const.
+        destruct n; ring. }
+    rewrite (fs_eq_at _ _ E1 (deg + i)%nat). clear E1.
+    destruct (taylor_compose deg (envC a deg d t) hs p) as [r [Hr ET]].
+    - unfold envC, hs. rewrite !app_length, !map_length. reflexivity.
+    - intros h Hh. unfold hs in Hh. apply in_app_or in Hh. destruct Hh as [Hh|[<-|[]]].
+      + apply in_map_iff in Hh. destruct Hh as [b [<- _]]. apply lowzero_shift.
+      + apply lowzero_const0.
+    - rewrite (fs_eq_at _ _ ET (deg + i)%nat). clear ET.
+      unfold fs_add at 1. rewrite (Hr (deg + i)%nat) by lia.
+      unfold fs_add at 1.
+      assert (Elen : length (envC a deg d t) = S d)
+        by (unfold envC; rewrite app_length, map_length, seq_length; simpl; lia).
+      rewrite Elen, seq_S, map_app.
+      rewrite (fs_eq_at _ _ (fs_sum_app' _ _) (deg + i)%nat). unfold fs_add at 1.
+      simpl map at 2. simpl fs_sum at 2.
+      assert (Elast : nth d hs (fs_const 0) = fs_const 0).
+      { unfold hs. rewrite app_nth2 by (rewrite map_length, seq_length; lia).
+        rewrite map_length, seq_length, Nat.sub_diag. reflexivity. }
+      rewrite Elast.
+      assert (Ezero : fs_add (fs_mul (fs_compose (envC a deg d t) (diff_poly d p)) (fs_const 0))
+                             (fs_const 0) (deg + i)%nat = 0).
+      { assert (Ez : fs_add (fs_mul (fs_compose (envC a deg d t) (diff_poly d p)) (fs_const 0))
+                            (fs_const 0) == fs_const 0) by ring.
+        rewrite (fs_eq_at _ _ Ez). unfold fs_const. destruct (deg + i)%nat; reflexivity. }
+      rewrite Ezero. rewrite fs_sum_at, fold_seq_vsum.
+      rewrite (vsum_ext d _ (fun b => fs_mul (fs_compose (envC a deg d t) (diff_poly b p)) (Eb b) i)).
+      + unfold Eb. ring.
+      + intros b Hb. unfold hs. rewrite app_nth1 by (rewrite map_length, seq_length; exact Hb).
+        rewrite nth_map_seq by exact Hb. simpl plus. apply fs_mul_shift.
+  Qed.
+
+  (* ---- the model of one doubling step ---- *)
+  (* normalised coefficient vectors of the solution *)
+  Definition cvec (a : nat -> nat -> F) (d n : nat) : tvec := map (fun b => a n b) (seq 0 d).
+
+  Lemma vget_cvec a d n b : b < d -> vget (cvec a d n) b = a n b.
+  Proof. intro Hb. unfold vget, cvec. rewrite nth_map_seq by exact Hb. reflexivity. Qed.
+
+  Lemma curve_env_autonomous (v : vfield) (t : F) (a : nat -> nat -> F) (p : poly) :
+    vf_k v = 1%nat -> no_var (vf_d v) p ->
+    fs_compose (curve_env 1 (vf_d v) a t) p
+    == fs_compose (map (fun b => (fun n => a n b) : fs) (seq 0 (vf_d v)) ++ [fs_const t]) p.
+  Proof.
+    intros Hk Hp. set (d := vf_d v) in *.
+    transitivity (fs_compose (map (fun b => (fun n => a n b) : fs) (seq 0 d) ++ [fs_time t]) p).
+    - apply fs_compose_ext. unfold curve_env. rewrite Nat.mul_1_l. apply Forall2_app.
+      + apply Forall2_map_seq. intros idx Hidx. constructor. intro n.
+        rewrite curve_fs_rise. rewrite Nat.div_small, Nat.mod_small by lia.
+        simpl rise. rewrite Nat.add_0_r. ring.
+      + constructor; [reflexivity|constructor].
+    - apply fs_compose_no_var_last. rewrite map_length, seq_length. exact Hp.
+  Qed.
+
+  Lemma first_coefficient (v : vfield) (t : F) (a : nat -> nat -> F) deg b' :
+    vf_k v = 1%nat -> autonomous v -> is_formal_solution v t a ->
+    1 <= deg -> b' < vf_d v ->
+    fs_compose (envC a deg (vf_d v) t) (nth b' (vf_f v) []) (deg - 1)%nat = fnat deg * a deg b'.
+  Proof.
+    intros Hk Haut Hsol Hdeg Hb'. set (d := vf_d v) in *. set (p := nth b' (vf_f v) []).
+    pose proof (Hsol (deg - 1)%nat b' Hb') as E0. rewrite Hk in E0. fold d p in E0.
+    rewrite curve_fs_rise in E0. simpl rise in E0.
+    replace (deg - 1 + 1)%nat with deg in E0 by lia. replace (S (deg - 1)) with deg in E0 by lia.
+    transitivity (fnat deg * 1 * a deg b'); [|ring]. rewrite E0.
+    assert (Hp : no_var d p).
+    { unfold p. apply no_var_nth_nil. intros q Hq. specialize (Haut q Hq).
+      rewrite Hk, Nat.mul_1_l in Haut. exact Haut. }
+    pose proof (fs_eq_at _ _ (curve_env_autonomous v t a p Hk Hp) (deg - 1)%nat) as E1.
+    fold d in E1. rewrite E1. clear E1.
+    symmetry. apply (fs_compose_agreeN deg); [|lia].
+    unfold envC. apply Forall2_app.
+    - apply Forall2_map_seq. intros b Hb n Hn. unfold ctrunc.
+      replace (Nat.ltb n deg) with true by (symmetry; apply Nat.ltb_lt; exact Hn). reflexivity.
+    - constructor; [apply agreeN_refl|constructor].
+  Qed.
+
+  (* the series environment of the embedded jet agrees with the truncated solution *)
+  Lemma dbl_env_agreeN (a : nat -> nat -> F) d (tc : list tvec) t N :
+    (forall n, n < length tc -> nth n tc [] = cvec a d n) ->
+    Forall2 (agreeN N) (map sget (dbl_env N d tc t)) (envC a (length tc) d t).
+  Proof.
+    intro Htc. unfold dbl_env, envC. rewrite map_app, map_map. apply Forall2_app.
+    - apply Forall2_map_seq. intros b Hb n Hn. rewrite sget_mkv by exact Hn. unfold ctrunc.
+      destruct (Nat.ltb_spec n (length tc)) as [Hlt|Hge].
+      + rewrite Htc by exact Hlt. apply vget_cvec. lia.
+      + rewrite nth_overflow by exact Hge. unfold vget. destruct b; reflexivity.
+    - simpl. constructor; [apply sget_sconst|constructor].
+  Qed.
+
+  Definition dbl_inv (a : nat -> nat -> F) (d deg i : nat) (cs : list tvec) : Prop :=
+    length cs = S deg /\ forall j, j <= i -> nth j cs [] = cvec a d (deg + j).
+
+  Theorem double_correct (v : vfield) (t : F) (a : nat -> nat -> F) (tc : list tvec) :
+    vf_k v = 1%nat -> length (vf_f v) = vf_d v -> autonomous v -> is_formal_solution v t a ->
+    1 <= length tc -> (forall n, n < length tc -> nth n tc [] = cvec a (vf_d v) n) ->
+    length (double v t tc) = S (2 * length tc) /\
+    forall n, n < S (2 * length tc) -> nth n (double v t tc) [] = cvec a (vf_d v) n.
+  Proof.
+    intros Hk Hf Haut Hsol Hdeg Htc. unfold double. cbv zeta.
+    set (d := vf_d v) in *. set (deg := length tc) in *. set (N := (2 * deg)%nat).
+    set (env := dbl_env N d tc t).
+    set (EC := envC a deg d t).
+    assert (HM1 : forall (p : poly) n, n < N -> sget (scompose N env p) n = fs_compose EC p n).
+    { intros p n Hn. rewrite (sget_scompose N) by exact Hn.
+      apply (fs_compose_agreeN N); [|exact Hn]. apply dbl_env_agreeN. exact Htc. }
+    set (fx := map (scompose N env) (vf_f v)).
+    set (Jac := map (fun p => map (fun b => scompose N env (diff_poly b p)) (seq 0 d)) (vf_f v)).
+    set (jvp_i := fun (E : list tvec) (i : nat) =>
+      map (fun Ja => vsum d (fun b =>
+             fs_mul (sget (nth b Ja []))
+                    (fun j => if Nat.ltb j deg then vget (nth j E []) b else 0) i)) Jac).
+    set (fxi := fun i => map (fun s : series => sget s i) fx).
+    set (cs0 := map (fun x => x / fnat deg) (fxi (deg - 1)%nat)).
+    set (zeros := map (fun _ : F => 0) cs0).
+    set (body := fun (cs : list tvec) (i : nat) =>
+      set_nth (S i)
+        (zipw (fun a0 b => (a0 + b) / fnat (i + deg + 1)) (fxi (deg + i)%nat)
+              (jvp_i (removelast cs) i)) cs).
+    (* initial state *)
+    assert (Hcs0 : cs0 = cvec a d deg).
+    { unfold cs0, fxi, fx. rewrite !map_map. rewrite (map_nth_seq _ (vf_f v) []), Hf. fold d.
+      unfold cvec. apply map_ext_in. intros b' Hb'. apply in_seq in Hb'.
+      rewrite HM1 by (unfold N; lia). unfold EC, d.
+      rewrite first_coefficient by (try assumption; lia).
+      field. apply fnat_neq0. lia. }
+    assert (Hinit : dbl_inv a d deg 0 (cs0 :: repeat zeros deg)).
+    { split; [simpl; rewrite repeat_length; reflexivity|].
+      intros j Hj. assert (j = 0%nat) by lia. subst j. simpl. rewrite Nat.add_0_r. exact Hcs0. }
+    (* one step *)
+    assert (Hstep : forall cs i, i < deg -> dbl_inv a d deg i cs -> dbl_inv a d deg (S i) (body cs i)).
+    { intros cs i Hi [Hlen Hcs]. unfold body. split; [rewrite set_nth_length; exact Hlen|].
+      intros j Hj. destruct (Nat.eq_dec j (S i)) as [->|Hne].
+      - rewrite set_nth_same by lia.
+        unfold fxi, fx, jvp_i, Jac. rewrite !map_map. rewrite zipw_map_both.
+        rewrite (map_nth_seq _ (vf_f v) []), Hf. fold d. unfold cvec.
+        apply map_ext_in. intros b' Hb'. apply in_seq in Hb'.
+        set (p := nth b' (vf_f v) []).
+        rewrite HM1 by (unfold N; lia).
+        rewrite (vsum_ext d _ (fun b => fs_mul (fs_compose EC (diff_poly b p))
+                                               (fun j0 => a (deg + j0)%nat b) i)).
+        2:{ intros b Hb. rewrite nth_map_seq by exact Hb. simpl plus.
+            apply (fs_mul_agreeN (S i)); [| |lia].
+            - intros n Hn. apply HM1. unfold N. lia.
+            - intros n Hn. replace (Nat.ltb n deg) with true by (symmetry; apply Nat.ltb_lt; lia).
+              rewrite removelast_nth by lia. rewrite Hcs by lia. apply vget_cvec. exact Hb. }
+        pose proof (newton_coefficient v t a deg i b' Hk Haut Hsol Hi) as HN.
+        fold d p EC in HN. rewrite <- HN by lia.
+        replace (deg + S i)%nat with (S (deg + i)) by lia.
+        replace (i + deg + 1)%nat with (S (deg + i)) by lia.
+        field. apply fnat_neq0. lia.
+      - rewrite set_nth_other by lia. apply Hcs. lia. }
+    (* the loop *)
+    assert (Hloop : forall n s cs, s + n <= deg -> dbl_inv a d deg s cs ->
+                                   dbl_inv a d deg (s + n) (fold_left body (seq s n) cs)).
+    { induction n as [|n IH]; intros s cs Hsn Hinv.
+      - rewrite Nat.add_0_r. exact Hinv.
+      - simpl seq. simpl fold_left. replace (s + S n)%nat with (S s + n)%nat by lia.
+        apply IH; [lia|]. apply Hstep; [lia|exact Hinv]. }
+    destruct (Hloop deg 0%nat (cs0 :: repeat zeros deg) ltac:(lia) Hinit) as [Hlen Hfin].
+    simpl plus in Hfin.
+    change (length (tc ++ fold_left body (seq 0 deg) (cs0 :: repeat zeros deg)) = S (2 * deg) /\
+            forall n, n < S (2 * deg) ->
+                      nth n (tc ++ fold_left body (seq 0 deg) (cs0 :: repeat zeros deg)) [] = cvec a d n).
+    split.
+    - rewrite app_length, Hlen. fold deg. lia.
+    - intros n Hn. destruct (Nat.lt_ge_cases n deg) as [Hlt|Hge].
+      + rewrite app_nth1 by exact Hlt. apply Htc. exact Hlt.
+      + rewrite app_nth2 by exact Hge. fold deg. rewrite Hfin by lia.
+        replace (deg + (n - deg))%nat with n by lia. reflexivity.
+  Qed.
+
+  Lemma iter_double_correct (v : vfield) (t : F) (a : nat -> nat -> F) n : forall (tc : list tvec),
+    vf_k v = 1%nat -> length (vf_f v) = vf_d v -> autonomous v -> is_formal_solution v t a ->
+    1 <= length tc -> (forall i, i < length tc -> nth i tc [] = cvec a (vf_d v) i) ->
+    let tc' := iter n (double v t) tc in
+    length tc' = (2 ^ n * (length tc + 1) - 1)%nat /\
+    forall i, i < length tc' -> nth i tc' [] = cvec a (vf_d v) i.
+  Proof.
+    induction n as [|n IH]; intros tc Hk Hf Haut Hsol HL Htc.
+    - simpl. split; [lia|exact Htc].
+    - destruct (double_correct v t a tc Hk Hf Haut Hsol HL Htc) as [HL1 Htc1].
+      simpl iter. destruct (IH (double v t tc) Hk Hf Haut Hsol) as [HL2 Htc2].
+      + lia.
+      + intros i Hi. apply Htc1. lia.
+      + split; [|exact Htc2]. simpl in HL2. rewrite HL2, HL1.
+        assert (E2 : (2 ^ S n = 2 * 2 ^ n)%nat) by apply Nat.pow_succ_r'.
+        assert (Hp1 : 1 <= 2 ^ n) by (pose proof (Nat.pow_nonzero 2 n ltac:(lia)); lia).
+        rewrite E2. nia.
+  Qed.
+
+  (* T10.4 *)
+  Theorem doubling_correct_autonomous (v : vfield) (t0 : F) (inits : list tvec) (nd : nat) :
+    vf_k v = 1%nat -> wf_problem v inits -> autonomous v ->
+    doubling_model v inits t0 nd = Some (spec_derivs v t0 inits (2 ^ (S nd) - 2)).
+  Proof.
+    intros Hk Hwf Haut. pose proof Hwf as [Hf [Hi Hd]].
+    set (a := sol v t0 (normalise inits)).
+    assert (Hsol : is_formal_solution v t0 a)
+      by (apply spec_is_formal_solution; rewrite normalise_length; exact Hi).
+    destruct inits as [|u0 [|u1 r]]; simpl in Hi; try lia.
+    unfold doubling_model. rewrite Hk. simpl orb.
+    assert (Hu0 : u0 = cvec a (vf_d v) 0).
+    { pose proof (sol_inits v t0 [u0] 0 Hwf ltac:(lia)) as E. simpl nth in E. rewrite E.
+      unfold dvec, cvec. apply map_ext. intro b. simpl ffact. fold a. ring. }
+    destruct (iter_double_correct v t0 a nd [u0] Hk Hf Haut Hsol) as [HL Htc].
+    - simpl. lia.
+    - intros i Hi'. simpl in Hi'. assert (i = 0%nat) by lia. subst i. exact Hu0.
+    - simpl length in HL. set (tc := iter nd (double v t0) [u0]) in *.
+      rewrite spec_derivs_dvec by exact Hwf. rewrite Hk. fold a.
+      assert (E2 : (2 ^ S nd = 2 * 2 ^ nd)%nat) by apply Nat.pow_succ_r'.
+      assert (Hp1 : 1 <= 2 ^ nd) by (pose proof (Nat.pow_nonzero 2 nd ltac:(lia)); lia).
+      unfold factorial_scaling. rewrite HL.
+      replace (2 ^ nd * (1 + 1) - 1)%nat with (1 + (2 ^ S nd - 2))%nat by lia.
+      f_equal. apply map_ext_in. intros n Hn. apply in_seq in Hn.
+      rewrite Htc by lia.
+      unfold cvec, dvec. rewrite map_map. apply map_ext. intro b. ring.
+  Qed.
+
+  Corollary doubling_agrees_with_unroll (v : vfield) (t0 : F) (inits : list tvec) (nd : nat) :
+    vf_k v = 1%nat -> wf_problem v inits -> autonomous v ->
+    doubling_model v inits t0 nd = unroll_model v inits t0 (2 ^ (S nd) - 2).
+  Proof.
+    intros Hk Hwf Haut. rewrite doubling_correct_autonomous by assumption.
+    rewrite unroll_correct by (try assumption; lia). reflexivity.
+  Qed.
+End Doubling.
+
+(* =========================================== Part 5: refutations (at Qc) *)
 (* u' = t u + t^2, u(1/2) = 1 : variables (u, t) *)
 Definition qc (n : Z) (d : positive) : Qc := Q2Qc (n # d).
 Definition witness_field : @vfield Qc :=
@@ -18,6 +1734,12 @@ Definition witness_t0 : Qc := qc 1 2.
 Definition qvals (l : list (list Qc)) : list (list Q) := map (map (fun x : Qc => this x)) l.
 Definition oqvals (o : option (list (list Qc))) : option (list (list Q)) :=
   match o with None => None | Some l => Some (qvals l) end.
+
+Lemma witness_wf : wf_problem witness_field witness_inits /\ (1 <= vf_k witness_field)%nat.
+Proof.
+  split; [|simpl; lia]. split; [reflexivity|]. split; [reflexivity|].
+  intros j Hj. simpl in Hj. assert (j = 0)%nat by lia. subst j. reflexivity.
+Qed.
 
 (* the true derivatives (1, 3/4, 19/8, 75/16) *)
 Lemma witness_spec :
@@ -33,23 +1755,98 @@ Lemma witness_doubling :
   oqvals (doubling_model witness_field witness_inits witness_t0 1)
   = Some [[1 # 1]; [3 # 4]; [3 # 8]]%Q.
 Proof. vm_compute. reflexivity. Qed.
+(* the repaired recursion on the witness *)
+Lemma witness_via_jvp_fixed :
+  oqvals (via_jvp_fixed_model witness_field witness_inits witness_t0 3)
+  = Some [[1 # 1]; [3 # 4]; [19 # 8]; [75 # 16]]%Q.
+Proof. vm_compute. reflexivity. Qed.
+
+Lemma P_via_jvp_witness_values :
+  map (map (fun x : Qc => this x)) (spec_derivs witness_field witness_t0 witness_inits 3)
+    = [[1 # 1]; [3 # 4]; [19 # 8]; [75 # 16]]%Q /\
+  match via_jvp_model witness_field witness_inits witness_t0 3 with
+  | Some l => map (map (fun x : Qc => this x)) l = [[1 # 1]; [3 # 4]; [3 # 8]; [3 # 16]]%Q
+  | None => False
+  end.
+Proof. split; [exact witness_spec|]. vm_compute. reflexivity. Qed.
 
 Lemma P_via_jvp_time_dependent_refuted :
   exists (v : @vfield Qc) (inits : list (list Qc)) (t0 : Qc) (num : nat),
-    vf_k v = 1 /\ length inits = 1 /\
+    (1 <= vf_k v)%nat /\ wf_problem v inits /\
     via_jvp_model v inits t0 num <> Some (spec_derivs v t0 inits num).
 Proof.
-  exists witness_field, witness_inits, witness_t0, 3.
-  split; [reflexivity|]. split; [reflexivity|].
+  exists witness_field, witness_inits, witness_t0, 3%nat.
+  split; [apply witness_wf|]. split; [apply witness_wf|].
   intro E. apply (f_equal oqvals) in E. vm_compute in E. discriminate E.
 Qed.
 
 Lemma P_doubling_time_dependent_refuted :
   exists (v : @vfield Qc) (inits : list (list Qc)) (t0 : Qc) (nd : nat),
-    vf_k v = 1 /\ length inits = 1 /\
+    vf_k v = 1%nat /\ wf_problem v inits /\
     doubling_model v inits t0 nd <> Some (spec_derivs v t0 inits (2 ^ (S nd) - 2)).
 Proof.
-  exists witness_field, witness_inits, witness_t0, 1.
-  split; [reflexivity|]. split; [reflexivity|].
+  exists witness_field, witness_inits, witness_t0, 1%nat.
+  split; [reflexivity|]. split; [apply witness_wf|].
   intro E. apply (f_equal oqvals) in E. vm_compute in E. discriminate E.
 Qed.
+
+
+(* ================================================= Examples (satisfiability) *)
+(* hypotheses of the theorems above are satisfiable: a well-formed first-order
+   time-dependent problem (the witness), a well-formed autonomous second-order
+   problem, and a formal solution (by existence) *)
+Example ex_wf_time_dependent :
+  (1 <= vf_k witness_field)%nat /\ wf_problem witness_field witness_inits.
+Proof. split; apply witness_wf. Qed.
+
+(* u'' = u * u' - 1/2 u^2, variables (u, u', t) with zero t-exponents *)
+Definition autonomous_field : @vfield Qc :=
+  mkVF 2 1 [[ (qc 1 1, [1; 1; 0]); (qc (-1) 2, [2; 0; 0]) ]].
+Definition autonomous_inits : list (list Qc) := [[qc 1 2]; [qc (-1) 4]].
+
+Example ex_wf_autonomous :
+  (1 <= vf_k autonomous_field)%nat /\ wf_problem autonomous_field autonomous_inits /\
+  autonomous autonomous_field.
+Proof.
+  split; [simpl; lia|]. split.
+  - split; [reflexivity|]. split; [reflexivity|].
+    intros j Hj. simpl in Hj. destruct j as [|[|j]]; [reflexivity|reflexivity|lia].
+  - intros p [<-|[]] m [<-|[<-|[]]]; reflexivity.
+Qed.
+
+Example ex_formal_solution_exists :
+  exists a, is_formal_solution autonomous_field (qc 1 4) a.
+Proof.
+  exists (sol autonomous_field (qc 1 4) (normalise autonomous_inits)).
+  apply spec_is_formal_solution. reflexivity.
+Qed.
+
+(* all routines on the autonomous example: derivatives (1/2, -1/4, -1/4, 1/16) *)
+Example ex_routines_on_autonomous :
+  oqvals (unroll_model autonomous_field autonomous_inits (qc 1 4) 2)
+  = Some [[1 # 2]; [-1 # 4]; [-1 # 4]; [1 # 16]]%Q /\
+  oqvals (padded_scan_model autonomous_field autonomous_inits (qc 1 4) 2)
+  = Some [[1 # 2]; [-1 # 4]; [-1 # 4]; [1 # 16]]%Q /\
+  oqvals (via_jvp_model autonomous_field autonomous_inits (qc 1 4) 2)
+  = Some [[1 # 2]; [-1 # 4]; [-1 # 4]; [1 # 16]]%Q.
+Proof. vm_compute. repeat split. Qed.
+
+(* u' = u^2 - 1/2 u (first order, autonomous): hypotheses of T10.4 are satisfiable;
+   two doublings return the 7 derivatives of the solution *)
+Definition autonomous_field1 : @vfield Qc :=
+  mkVF 1 1 [[ (qc (-1) 2, [1; 0]); (qc 1 1, [2; 0]) ]].
+Example ex_wf_autonomous_first_order :
+  vf_k autonomous_field1 = 1%nat /\ wf_problem autonomous_field1 [[qc 1 1]] /\
+  autonomous autonomous_field1.
+Proof.
+  split; [reflexivity|]. split.
+  - split; [reflexivity|]. split; [reflexivity|].
+    intros j Hj. simpl in Hj. assert (j = 0)%nat by lia. subst j. reflexivity.
+  - intros p [<-|[]] m [<-|[<-|[]]]; reflexivity.
+Qed.
+Example ex_doubling_on_autonomous :
+  oqvals (doubling_model autonomous_field1 [[qc 1 1]] (qc 0 1) 2)
+  = oqvals (Some (spec_derivs autonomous_field1 (qc 0 1) [[qc 1 1]] 6)) /\
+  oqvals (doubling_model autonomous_field1 [[qc 1 1]] (qc 0 1) 2)
+  = Some [[1 # 1]; [1 # 2]; [3 # 4]; [13 # 8]; [75 # 16]; [541 # 32]; [4683 # 64]]%Q.
+Proof. vm_compute. split; reflexivity. Qed.
